@@ -873,1116 +873,1141 @@ def C10.Quat.setRotation {α : Type} [Add α] [Sub α] [Mul α] [Div α] [Neg α
                 ⟨t1262, ⟨t1283, t1282, t1281⟩⟩
 
 /-- extracted from the C++ template at T = Sym; 2 path(s) -/
+def C10.V3.normalized {α : Type} [Add α] [Mul α] [Div α] [Neg α] [LT α] [LE α] [DecidableLT α] [DecidableLE α] [DecidableEq α] [OfNat α 0] [OfNat α 2] (tmin : α) (sqrt : α → α) (a : V3 α) : (V3 α) :=
+  let t1454 := (V3.length tmin sqrt ⟨a.x, a.y, a.z⟩)
+  if t1454 = (0 : α) then
+    ⟨(0 : α), (0 : α), (0 : α)⟩
+  else
+    ⟨(a.x / t1454), (a.y / t1454), (a.z / t1454)⟩
+
+/-- extracted from the C++ template at T = Sym; 2 path(s) -/
+def C10.Quat.setRotationInternal {α : Type} [Add α] [Sub α] [Mul α] [Div α] [Neg α] [LT α] [LE α] [DecidableLT α] [DecidableLE α] [DecidableEq α] [OfNat α 0] [OfNat α 2] (tmin : α) (sqrt : α → α) (f0 : V3 α) (t0 : V3 α) : (Quat α) :=
+  let t1464 := (f0.z + t0.z)
+  let t1465 := (f0.y + t0.y)
+  let t1466 := (f0.x + t0.x)
+  let t1467 := (V3.length tmin sqrt ⟨t1466, t1465, t1464⟩)
+  let t1468 := (f0.z * (0 : α))
+  let t1469 := (f0.y * (0 : α))
+  let t1470 := (f0.x * (0 : α))
+  let t1476 := (t1464 / t1467)
+  let t1477 := (t1465 / t1467)
+  let t1478 := (t1466 / t1467)
+  if t1467 = (0 : α) then
+    ⟨((t1470 + t1469) + t1468), ⟨(t1469 - t1468), (t1468 - t1470), (t1470 - t1469)⟩⟩
+  else
+    ⟨(((f0.x * t1478) + (f0.y * t1477)) + (f0.z * t1476)), ⟨((f0.y * t1476) - (f0.z * t1477)), ((f0.z * t1478) - (f0.x * t1476)), ((f0.x * t1477) - (f0.y * t1478))⟩⟩
+
+/-- extracted from the C++ template at T = Sym; 2 path(s) -/
 def C10.sinx_over_x {α : Type} [Mul α] [Div α] [LT α] [DecidableLT α] [OfNat α 1] (teps : α) (sin : α → α) (x : α) : α :=
-  let t1452 := (x * x)
-  if t1452 < teps then
+  let t1494 := (x * x)
+  if t1494 < teps then
     (1 : α)
   else
     ((sin x) / x)
 
 /-- extracted from the C++ template at T = Sym; 1 path(s) -/
 def C10.Quat.angle4D {α : Type} [Add α] [Sub α] [Mul α] [OfNat α 2] (sqrt : α → α) (atan2 : α → α → α) (q1 : Quat α) (q2 : Quat α) : α :=
-  let t1463 := (q1.v.z - q2.v.z)
-  let t1464 := (q1.v.y - q2.v.y)
-  let t1465 := (q1.v.x - q2.v.x)
-  let t1466 := (q1.r - q2.r)
-  let t1475 := (q1.v.z + q2.v.z)
-  let t1476 := (q1.v.y + q2.v.y)
-  let t1477 := (q1.v.x + q2.v.x)
-  let t1478 := (q1.r + q2.r)
-  ((2 : α) * (atan2 (sqrt ((t1466 * t1466) + (((t1465 * t1465) + (t1464 * t1464)) + (t1463 * t1463)))) (sqrt ((t1478 * t1478) + (((t1477 * t1477) + (t1476 * t1476)) + (t1475 * t1475))))))
+  let t1505 := (q1.v.z - q2.v.z)
+  let t1506 := (q1.v.y - q2.v.y)
+  let t1507 := (q1.v.x - q2.v.x)
+  let t1508 := (q1.r - q2.r)
+  let t1517 := (q1.v.z + q2.v.z)
+  let t1518 := (q1.v.y + q2.v.y)
+  let t1519 := (q1.v.x + q2.v.x)
+  let t1520 := (q1.r + q2.r)
+  ((2 : α) * (atan2 (sqrt ((t1508 * t1508) + (((t1507 * t1507) + (t1506 * t1506)) + (t1505 * t1505)))) (sqrt ((t1520 * t1520) + (((t1519 * t1519) + (t1518 * t1518)) + (t1517 * t1517))))))
 
 /-- extracted from the C++ template at T = Sym; 16 path(s) -/
 def C10.Quat.slerp {α : Type} [Add α] [Sub α] [Mul α] [Div α] [LT α] [DecidableLT α] [DecidableEq α] [OfNat α 0] [OfNat α 1] [OfNat α 2] (teps : α) (sqrt : α → α) (sin : α → α) (atan2 : α → α → α) (q1 : Quat α) (q2 : Quat α) (t : α) : (Quat α) :=
-  let t1463 := (q1.v.z - q2.v.z)
-  let t1464 := (q1.v.y - q2.v.y)
-  let t1465 := (q1.v.x - q2.v.x)
-  let t1466 := (q1.r - q2.r)
-  let t1475 := (q1.v.z + q2.v.z)
-  let t1476 := (q1.v.y + q2.v.y)
-  let t1477 := (q1.v.x + q2.v.x)
-  let t1478 := (q1.r + q2.r)
-  let t1488 := ((2 : α) * (atan2 (sqrt ((t1466 * t1466) + (((t1465 * t1465) + (t1464 * t1464)) + (t1463 * t1463)))) (sqrt ((t1478 * t1478) + (((t1477 * t1477) + (t1476 * t1476)) + (t1475 * t1475))))))
-  let t1490 := ((1 : α) - t)
-  let t1491 := (t1488 * t1488)
-  let t1492 := (t * t1488)
-  let t1493 := (t1492 * t1492)
-  let t1494 := ((1 : α) / (1 : α))
-  let t1495 := (t1494 * t)
-  let t1496 := (q2.v.z * t1495)
-  let t1497 := (q2.v.y * t1495)
-  let t1498 := (q2.v.x * t1495)
-  let t1499 := (q2.r * t1495)
-  let t1500 := (t1490 * t1488)
-  let t1501 := (t1500 * t1500)
-  let t1502 := (t1494 * t1490)
-  let t1503 := (q1.v.z * t1502)
-  let t1504 := (q1.v.y * t1502)
-  let t1505 := (q1.v.x * t1502)
-  let t1506 := (q1.r * t1502)
-  let t1507 := (t1503 + t1496)
-  let t1508 := (t1504 + t1497)
-  let t1509 := (t1505 + t1498)
-  let t1510 := (t1506 + t1499)
-  let t1518 := (sqrt ((t1510 * t1510) + (((t1509 * t1509) + (t1508 * t1508)) + (t1507 * t1507))))
-  let t1524 := ((sin t1500) / t1500)
-  let t1526 := ((t1524 / (1 : α)) * t1490)
-  let t1527 := (q1.v.z * t1526)
-  let t1528 := (q1.v.y * t1526)
-  let t1529 := (q1.v.x * t1526)
-  let t1530 := (q1.r * t1526)
-  let t1531 := (t1527 + t1496)
-  let t1532 := (t1528 + t1497)
-  let t1533 := (t1529 + t1498)
-  let t1534 := (t1530 + t1499)
-  let t1542 := (sqrt ((t1534 * t1534) + (((t1533 * t1533) + (t1532 * t1532)) + (t1531 * t1531))))
-  let t1548 := ((sin t1492) / t1492)
-  let t1550 := ((t1548 / (1 : α)) * t)
-  let t1551 := (q2.v.z * t1550)
-  let t1552 := (q2.v.y * t1550)
-  let t1553 := (q2.v.x * t1550)
-  let t1554 := (q2.r * t1550)
-  let t1555 := (t1503 + t1551)
-  let t1556 := (t1504 + t1552)
-  let t1557 := (t1505 + t1553)
-  let t1558 := (t1506 + t1554)
-  let t1566 := (sqrt ((t1558 * t1558) + (((t1557 * t1557) + (t1556 * t1556)) + (t1555 * t1555))))
-  let t1571 := (t1527 + t1551)
-  let t1572 := (t1528 + t1552)
-  let t1573 := (t1529 + t1553)
-  let t1574 := (t1530 + t1554)
-  let t1582 := (sqrt ((t1574 * t1574) + (((t1573 * t1573) + (t1572 * t1572)) + (t1571 * t1571))))
-  let t1588 := ((sin t1488) / t1488)
-  let t1589 := ((1 : α) / t1588)
-  let t1590 := (t1589 * t)
-  let t1591 := (q2.v.z * t1590)
-  let t1592 := (q2.v.y * t1590)
-  let t1593 := (q2.v.x * t1590)
-  let t1594 := (q2.r * t1590)
-  let t1595 := (t1589 * t1490)
-  let t1596 := (q1.v.z * t1595)
-  let t1597 := (q1.v.y * t1595)
-  let t1598 := (q1.v.x * t1595)
-  let t1599 := (q1.r * t1595)
-  let t1600 := (t1596 + t1591)
-  let t1601 := (t1597 + t1592)
-  let t1602 := (t1598 + t1593)
-  let t1603 := (t1599 + t1594)
-  let t1611 := (sqrt ((t1603 * t1603) + (((t1602 * t1602) + (t1601 * t1601)) + (t1600 * t1600))))
-  let t1617 := ((t1524 / t1588) * t1490)
-  let t1618 := (q1.v.z * t1617)
-  let t1619 := (q1.v.y * t1617)
-  let t1620 := (q1.v.x * t1617)
-  let t1621 := (q1.r * t1617)
-  let t1622 := (t1618 + t1591)
-  let t1623 := (t1619 + t1592)
-  let t1624 := (t1620 + t1593)
-  let t1625 := (t1621 + t1594)
-  let t1633 := (sqrt ((t1625 * t1625) + (((t1624 * t1624) + (t1623 * t1623)) + (t1622 * t1622))))
-  let t1639 := ((t1548 / t1588) * t)
-  let t1640 := (q2.v.z * t1639)
-  let t1641 := (q2.v.y * t1639)
-  let t1642 := (q2.v.x * t1639)
-  let t1643 := (q2.r * t1639)
-  let t1644 := (t1596 + t1640)
-  let t1645 := (t1597 + t1641)
-  let t1646 := (t1598 + t1642)
-  let t1647 := (t1599 + t1643)
-  let t1655 := (sqrt ((t1647 * t1647) + (((t1646 * t1646) + (t1645 * t1645)) + (t1644 * t1644))))
-  let t1660 := (t1618 + t1640)
-  let t1661 := (t1619 + t1641)
-  let t1662 := (t1620 + t1642)
-  let t1663 := (t1621 + t1643)
-  let t1671 := (sqrt ((t1663 * t1663) + (((t1662 * t1662) + (t1661 * t1661)) + (t1660 * t1660))))
-  if t1491 < teps then
-    if t1493 < teps then
-      if t1501 < teps then
-        if t1518 = (0 : α) then
+  let t1505 := (q1.v.z - q2.v.z)
+  let t1506 := (q1.v.y - q2.v.y)
+  let t1507 := (q1.v.x - q2.v.x)
+  let t1508 := (q1.r - q2.r)
+  let t1517 := (q1.v.z + q2.v.z)
+  let t1518 := (q1.v.y + q2.v.y)
+  let t1519 := (q1.v.x + q2.v.x)
+  let t1520 := (q1.r + q2.r)
+  let t1530 := ((2 : α) * (atan2 (sqrt ((t1508 * t1508) + (((t1507 * t1507) + (t1506 * t1506)) + (t1505 * t1505)))) (sqrt ((t1520 * t1520) + (((t1519 * t1519) + (t1518 * t1518)) + (t1517 * t1517))))))
+  let t1532 := ((1 : α) - t)
+  let t1533 := (t1530 * t1530)
+  let t1534 := (t * t1530)
+  let t1535 := (t1534 * t1534)
+  let t1536 := ((1 : α) / (1 : α))
+  let t1537 := (t1536 * t)
+  let t1538 := (q2.v.z * t1537)
+  let t1539 := (q2.v.y * t1537)
+  let t1540 := (q2.v.x * t1537)
+  let t1541 := (q2.r * t1537)
+  let t1542 := (t1532 * t1530)
+  let t1543 := (t1542 * t1542)
+  let t1544 := (t1536 * t1532)
+  let t1545 := (q1.v.z * t1544)
+  let t1546 := (q1.v.y * t1544)
+  let t1547 := (q1.v.x * t1544)
+  let t1548 := (q1.r * t1544)
+  let t1549 := (t1545 + t1538)
+  let t1550 := (t1546 + t1539)
+  let t1551 := (t1547 + t1540)
+  let t1552 := (t1548 + t1541)
+  let t1560 := (sqrt ((t1552 * t1552) + (((t1551 * t1551) + (t1550 * t1550)) + (t1549 * t1549))))
+  let t1566 := ((sin t1542) / t1542)
+  let t1568 := ((t1566 / (1 : α)) * t1532)
+  let t1569 := (q1.v.z * t1568)
+  let t1570 := (q1.v.y * t1568)
+  let t1571 := (q1.v.x * t1568)
+  let t1572 := (q1.r * t1568)
+  let t1573 := (t1569 + t1538)
+  let t1574 := (t1570 + t1539)
+  let t1575 := (t1571 + t1540)
+  let t1576 := (t1572 + t1541)
+  let t1584 := (sqrt ((t1576 * t1576) + (((t1575 * t1575) + (t1574 * t1574)) + (t1573 * t1573))))
+  let t1590 := ((sin t1534) / t1534)
+  let t1592 := ((t1590 / (1 : α)) * t)
+  let t1593 := (q2.v.z * t1592)
+  let t1594 := (q2.v.y * t1592)
+  let t1595 := (q2.v.x * t1592)
+  let t1596 := (q2.r * t1592)
+  let t1597 := (t1545 + t1593)
+  let t1598 := (t1546 + t1594)
+  let t1599 := (t1547 + t1595)
+  let t1600 := (t1548 + t1596)
+  let t1608 := (sqrt ((t1600 * t1600) + (((t1599 * t1599) + (t1598 * t1598)) + (t1597 * t1597))))
+  let t1613 := (t1569 + t1593)
+  let t1614 := (t1570 + t1594)
+  let t1615 := (t1571 + t1595)
+  let t1616 := (t1572 + t1596)
+  let t1624 := (sqrt ((t1616 * t1616) + (((t1615 * t1615) + (t1614 * t1614)) + (t1613 * t1613))))
+  let t1630 := ((sin t1530) / t1530)
+  let t1631 := ((1 : α) / t1630)
+  let t1632 := (t1631 * t)
+  let t1633 := (q2.v.z * t1632)
+  let t1634 := (q2.v.y * t1632)
+  let t1635 := (q2.v.x * t1632)
+  let t1636 := (q2.r * t1632)
+  let t1637 := (t1631 * t1532)
+  let t1638 := (q1.v.z * t1637)
+  let t1639 := (q1.v.y * t1637)
+  let t1640 := (q1.v.x * t1637)
+  let t1641 := (q1.r * t1637)
+  let t1642 := (t1638 + t1633)
+  let t1643 := (t1639 + t1634)
+  let t1644 := (t1640 + t1635)
+  let t1645 := (t1641 + t1636)
+  let t1653 := (sqrt ((t1645 * t1645) + (((t1644 * t1644) + (t1643 * t1643)) + (t1642 * t1642))))
+  let t1659 := ((t1566 / t1630) * t1532)
+  let t1660 := (q1.v.z * t1659)
+  let t1661 := (q1.v.y * t1659)
+  let t1662 := (q1.v.x * t1659)
+  let t1663 := (q1.r * t1659)
+  let t1664 := (t1660 + t1633)
+  let t1665 := (t1661 + t1634)
+  let t1666 := (t1662 + t1635)
+  let t1667 := (t1663 + t1636)
+  let t1675 := (sqrt ((t1667 * t1667) + (((t1666 * t1666) + (t1665 * t1665)) + (t1664 * t1664))))
+  let t1681 := ((t1590 / t1630) * t)
+  let t1682 := (q2.v.z * t1681)
+  let t1683 := (q2.v.y * t1681)
+  let t1684 := (q2.v.x * t1681)
+  let t1685 := (q2.r * t1681)
+  let t1686 := (t1638 + t1682)
+  let t1687 := (t1639 + t1683)
+  let t1688 := (t1640 + t1684)
+  let t1689 := (t1641 + t1685)
+  let t1697 := (sqrt ((t1689 * t1689) + (((t1688 * t1688) + (t1687 * t1687)) + (t1686 * t1686))))
+  let t1702 := (t1660 + t1682)
+  let t1703 := (t1661 + t1683)
+  let t1704 := (t1662 + t1684)
+  let t1705 := (t1663 + t1685)
+  let t1713 := (sqrt ((t1705 * t1705) + (((t1704 * t1704) + (t1703 * t1703)) + (t1702 * t1702))))
+  if t1533 < teps then
+    if t1535 < teps then
+      if t1543 < teps then
+        if t1560 = (0 : α) then
           ⟨(1 : α), ⟨(0 : α), (0 : α), (0 : α)⟩⟩
         else
-          ⟨(t1510 / t1518), ⟨(t1509 / t1518), (t1508 / t1518), (t1507 / t1518)⟩⟩
+          ⟨(t1552 / t1560), ⟨(t1551 / t1560), (t1550 / t1560), (t1549 / t1560)⟩⟩
       else
-        if t1542 = (0 : α) then
+        if t1584 = (0 : α) then
           ⟨(1 : α), ⟨(0 : α), (0 : α), (0 : α)⟩⟩
         else
-          ⟨(t1534 / t1542), ⟨(t1533 / t1542), (t1532 / t1542), (t1531 / t1542)⟩⟩
+          ⟨(t1576 / t1584), ⟨(t1575 / t1584), (t1574 / t1584), (t1573 / t1584)⟩⟩
     else
-      if t1501 < teps then
-        if t1566 = (0 : α) then
+      if t1543 < teps then
+        if t1608 = (0 : α) then
           ⟨(1 : α), ⟨(0 : α), (0 : α), (0 : α)⟩⟩
         else
-          ⟨(t1558 / t1566), ⟨(t1557 / t1566), (t1556 / t1566), (t1555 / t1566)⟩⟩
+          ⟨(t1600 / t1608), ⟨(t1599 / t1608), (t1598 / t1608), (t1597 / t1608)⟩⟩
       else
-        if t1582 = (0 : α) then
+        if t1624 = (0 : α) then
           ⟨(1 : α), ⟨(0 : α), (0 : α), (0 : α)⟩⟩
         else
-          ⟨(t1574 / t1582), ⟨(t1573 / t1582), (t1572 / t1582), (t1571 / t1582)⟩⟩
+          ⟨(t1616 / t1624), ⟨(t1615 / t1624), (t1614 / t1624), (t1613 / t1624)⟩⟩
   else
-    if t1493 < teps then
-      if t1501 < teps then
-        if t1611 = (0 : α) then
+    if t1535 < teps then
+      if t1543 < teps then
+        if t1653 = (0 : α) then
           ⟨(1 : α), ⟨(0 : α), (0 : α), (0 : α)⟩⟩
         else
-          ⟨(t1603 / t1611), ⟨(t1602 / t1611), (t1601 / t1611), (t1600 / t1611)⟩⟩
+          ⟨(t1645 / t1653), ⟨(t1644 / t1653), (t1643 / t1653), (t1642 / t1653)⟩⟩
       else
-        if t1633 = (0 : α) then
+        if t1675 = (0 : α) then
           ⟨(1 : α), ⟨(0 : α), (0 : α), (0 : α)⟩⟩
         else
-          ⟨(t1625 / t1633), ⟨(t1624 / t1633), (t1623 / t1633), (t1622 / t1633)⟩⟩
+          ⟨(t1667 / t1675), ⟨(t1666 / t1675), (t1665 / t1675), (t1664 / t1675)⟩⟩
     else
-      if t1501 < teps then
-        if t1655 = (0 : α) then
+      if t1543 < teps then
+        if t1697 = (0 : α) then
           ⟨(1 : α), ⟨(0 : α), (0 : α), (0 : α)⟩⟩
         else
-          ⟨(t1647 / t1655), ⟨(t1646 / t1655), (t1645 / t1655), (t1644 / t1655)⟩⟩
+          ⟨(t1689 / t1697), ⟨(t1688 / t1697), (t1687 / t1697), (t1686 / t1697)⟩⟩
       else
-        if t1671 = (0 : α) then
+        if t1713 = (0 : α) then
           ⟨(1 : α), ⟨(0 : α), (0 : α), (0 : α)⟩⟩
         else
-          ⟨(t1663 / t1671), ⟨(t1662 / t1671), (t1661 / t1671), (t1660 / t1671)⟩⟩
+          ⟨(t1705 / t1713), ⟨(t1704 / t1713), (t1703 / t1713), (t1702 / t1713)⟩⟩
 
 /-- extracted from the C++ template at T = Sym; 32 path(s) -/
 def C10.Quat.slerpShortestArc {α : Type} [Add α] [Sub α] [Mul α] [Div α] [Neg α] [LT α] [LE α] [DecidableLT α] [DecidableLE α] [DecidableEq α] [OfNat α 0] [OfNat α 1] [OfNat α 2] (teps : α) (sqrt : α → α) (sin : α → α) (atan2 : α → α → α) (q1 : Quat α) (q2 : Quat α) (t : α) : (Quat α) :=
-  let t1463 := (q1.v.z - q2.v.z)
-  let t1464 := (q1.v.y - q2.v.y)
-  let t1465 := (q1.v.x - q2.v.x)
-  let t1466 := (q1.r - q2.r)
-  let t1475 := (q1.v.z + q2.v.z)
-  let t1476 := (q1.v.y + q2.v.y)
-  let t1477 := (q1.v.x + q2.v.x)
-  let t1478 := (q1.r + q2.r)
-  let t1488 := ((2 : α) * (atan2 (sqrt ((t1466 * t1466) + (((t1465 * t1465) + (t1464 * t1464)) + (t1463 * t1463)))) (sqrt ((t1478 * t1478) + (((t1477 * t1477) + (t1476 * t1476)) + (t1475 * t1475))))))
-  let t1490 := ((1 : α) - t)
-  let t1491 := (t1488 * t1488)
-  let t1492 := (t * t1488)
-  let t1493 := (t1492 * t1492)
-  let t1494 := ((1 : α) / (1 : α))
-  let t1495 := (t1494 * t)
-  let t1496 := (q2.v.z * t1495)
-  let t1497 := (q2.v.y * t1495)
-  let t1498 := (q2.v.x * t1495)
-  let t1499 := (q2.r * t1495)
-  let t1500 := (t1490 * t1488)
-  let t1501 := (t1500 * t1500)
-  let t1502 := (t1494 * t1490)
-  let t1503 := (q1.v.z * t1502)
-  let t1504 := (q1.v.y * t1502)
-  let t1505 := (q1.v.x * t1502)
-  let t1506 := (q1.r * t1502)
-  let t1507 := (t1503 + t1496)
-  let t1508 := (t1504 + t1497)
-  let t1509 := (t1505 + t1498)
-  let t1510 := (t1506 + t1499)
-  let t1518 := (sqrt ((t1510 * t1510) + (((t1509 * t1509) + (t1508 * t1508)) + (t1507 * t1507))))
-  let t1524 := ((sin t1500) / t1500)
-  let t1526 := ((t1524 / (1 : α)) * t1490)
-  let t1527 := (q1.v.z * t1526)
-  let t1528 := (q1.v.y * t1526)
-  let t1529 := (q1.v.x * t1526)
-  let t1530 := (q1.r * t1526)
-  let t1531 := (t1527 + t1496)
-  let t1532 := (t1528 + t1497)
-  let t1533 := (t1529 + t1498)
-  let t1534 := (t1530 + t1499)
-  let t1542 := (sqrt ((t1534 * t1534) + (((t1533 * t1533) + (t1532 * t1532)) + (t1531 * t1531))))
-  let t1548 := ((sin t1492) / t1492)
-  let t1550 := ((t1548 / (1 : α)) * t)
-  let t1551 := (q2.v.z * t1550)
-  let t1552 := (q2.v.y * t1550)
-  let t1553 := (q2.v.x * t1550)
-  let t1554 := (q2.r * t1550)
-  let t1555 := (t1503 + t1551)
-  let t1556 := (t1504 + t1552)
-  let t1557 := (t1505 + t1553)
-  let t1558 := (t1506 + t1554)
-  let t1566 := (sqrt ((t1558 * t1558) + (((t1557 * t1557) + (t1556 * t1556)) + (t1555 * t1555))))
-  let t1571 := (t1527 + t1551)
-  let t1572 := (t1528 + t1552)
-  let t1573 := (t1529 + t1553)
-  let t1574 := (t1530 + t1554)
-  let t1582 := (sqrt ((t1574 * t1574) + (((t1573 * t1573) + (t1572 * t1572)) + (t1571 * t1571))))
-  let t1588 := ((sin t1488) / t1488)
-  let t1589 := ((1 : α) / t1588)
-  let t1590 := (t1589 * t)
-  let t1591 := (q2.v.z * t1590)
-  let t1592 := (q2.v.y * t1590)
-  let t1593 := (q2.v.x * t1590)
-  let t1594 := (q2.r * t1590)
-  let t1595 := (t1589 * t1490)
-  let t1596 := (q1.v.z * t1595)
-  let t1597 := (q1.v.y * t1595)
-  let t1598 := (q1.v.x * t1595)
-  let t1599 := (q1.r * t1595)
-  let t1600 := (t1596 + t1591)
-  let t1601 := (t1597 + t1592)
-  let t1602 := (t1598 + t1593)
-  let t1603 := (t1599 + t1594)
-  let t1611 := (sqrt ((t1603 * t1603) + (((t1602 * t1602) + (t1601 * t1601)) + (t1600 * t1600))))
-  let t1617 := ((t1524 / t1588) * t1490)
-  let t1618 := (q1.v.z * t1617)
-  let t1619 := (q1.v.y * t1617)
-  let t1620 := (q1.v.x * t1617)
-  let t1621 := (q1.r * t1617)
-  let t1622 := (t1618 + t1591)
-  let t1623 := (t1619 + t1592)
-  let t1624 := (t1620 + t1593)
-  let t1625 := (t1621 + t1594)
-  let t1633 := (sqrt ((t1625 * t1625) + (((t1624 * t1624) + (t1623 * t1623)) + (t1622 * t1622))))
-  let t1639 := ((t1548 / t1588) * t)
-  let t1640 := (q2.v.z * t1639)
-  let t1641 := (q2.v.y * t1639)
-  let t1642 := (q2.v.x * t1639)
-  let t1643 := (q2.r * t1639)
-  let t1644 := (t1596 + t1640)
-  let t1645 := (t1597 + t1641)
-  let t1646 := (t1598 + t1642)
-  let t1647 := (t1599 + t1643)
-  let t1655 := (sqrt ((t1647 * t1647) + (((t1646 * t1646) + (t1645 * t1645)) + (t1644 * t1644))))
-  let t1660 := (t1618 + t1640)
-  let t1661 := (t1619 + t1641)
-  let t1662 := (t1620 + t1642)
-  let t1663 := (t1621 + t1643)
-  let t1671 := (sqrt ((t1663 * t1663) + (((t1662 * t1662) + (t1661 * t1661)) + (t1660 * t1660))))
-  let t1682 := ((q1.r * q2.r) + (((q1.v.x * q2.v.x) + (q1.v.y * q2.v.y)) + (q1.v.z * q2.v.z)))
-  let t1683 := (-q2.v.z)
-  let t1684 := (-q2.v.y)
-  let t1685 := (-q2.v.x)
-  let t1686 := (-q2.r)
-  let t1687 := (q1.v.z - t1683)
-  let t1688 := (q1.v.y - t1684)
-  let t1689 := (q1.v.x - t1685)
-  let t1690 := (q1.r - t1686)
-  let t1699 := (q1.v.z + t1683)
-  let t1700 := (q1.v.y + t1684)
-  let t1701 := (q1.v.x + t1685)
-  let t1702 := (q1.r + t1686)
-  let t1712 := ((2 : α) * (atan2 (sqrt ((t1690 * t1690) + (((t1689 * t1689) + (t1688 * t1688)) + (t1687 * t1687)))) (sqrt ((t1702 * t1702) + (((t1701 * t1701) + (t1700 * t1700)) + (t1699 * t1699))))))
-  let t1713 := (t1712 * t1712)
-  let t1714 := (t * t1712)
-  let t1715 := (t1714 * t1714)
-  let t1716 := (t1683 * t1495)
-  let t1717 := (t1684 * t1495)
-  let t1718 := (t1685 * t1495)
-  let t1719 := (t1686 * t1495)
-  let t1720 := (t1490 * t1712)
-  let t1721 := (t1720 * t1720)
-  let t1722 := (t1503 + t1716)
-  let t1723 := (t1504 + t1717)
-  let t1724 := (t1505 + t1718)
-  let t1725 := (t1506 + t1719)
-  let t1733 := (sqrt ((t1725 * t1725) + (((t1724 * t1724) + (t1723 * t1723)) + (t1722 * t1722))))
-  let t1739 := ((sin t1720) / t1720)
-  let t1741 := ((t1739 / (1 : α)) * t1490)
-  let t1742 := (q1.v.z * t1741)
-  let t1743 := (q1.v.y * t1741)
-  let t1744 := (q1.v.x * t1741)
-  let t1745 := (q1.r * t1741)
-  let t1746 := (t1742 + t1716)
-  let t1747 := (t1743 + t1717)
-  let t1748 := (t1744 + t1718)
-  let t1749 := (t1745 + t1719)
-  let t1757 := (sqrt ((t1749 * t1749) + (((t1748 * t1748) + (t1747 * t1747)) + (t1746 * t1746))))
-  let t1763 := ((sin t1714) / t1714)
-  let t1765 := ((t1763 / (1 : α)) * t)
-  let t1766 := (t1683 * t1765)
-  let t1767 := (t1684 * t1765)
-  let t1768 := (t1685 * t1765)
-  let t1769 := (t1686 * t1765)
-  let t1770 := (t1503 + t1766)
-  let t1771 := (t1504 + t1767)
-  let t1772 := (t1505 + t1768)
-  let t1773 := (t1506 + t1769)
-  let t1781 := (sqrt ((t1773 * t1773) + (((t1772 * t1772) + (t1771 * t1771)) + (t1770 * t1770))))
-  let t1786 := (t1742 + t1766)
-  let t1787 := (t1743 + t1767)
-  let t1788 := (t1744 + t1768)
-  let t1789 := (t1745 + t1769)
-  let t1797 := (sqrt ((t1789 * t1789) + (((t1788 * t1788) + (t1787 * t1787)) + (t1786 * t1786))))
-  let t1803 := ((sin t1712) / t1712)
-  let t1804 := ((1 : α) / t1803)
-  let t1805 := (t1804 * t)
-  let t1806 := (t1683 * t1805)
-  let t1807 := (t1684 * t1805)
-  let t1808 := (t1685 * t1805)
-  let t1809 := (t1686 * t1805)
-  let t1810 := (t1804 * t1490)
-  let t1811 := (q1.v.z * t1810)
-  let t1812 := (q1.v.y * t1810)
-  let t1813 := (q1.v.x * t1810)
-  let t1814 := (q1.r * t1810)
-  let t1815 := (t1811 + t1806)
-  let t1816 := (t1812 + t1807)
-  let t1817 := (t1813 + t1808)
-  let t1818 := (t1814 + t1809)
-  let t1826 := (sqrt ((t1818 * t1818) + (((t1817 * t1817) + (t1816 * t1816)) + (t1815 * t1815))))
-  let t1832 := ((t1739 / t1803) * t1490)
-  let t1833 := (q1.v.z * t1832)
-  let t1834 := (q1.v.y * t1832)
-  let t1835 := (q1.v.x * t1832)
-  let t1836 := (q1.r * t1832)
-  let t1837 := (t1833 + t1806)
-  let t1838 := (t1834 + t1807)
-  let t1839 := (t1835 + t1808)
-  let t1840 := (t1836 + t1809)
-  let t1848 := (sqrt ((t1840 * t1840) + (((t1839 * t1839) + (t1838 * t1838)) + (t1837 * t1837))))
-  let t1854 := ((t1763 / t1803) * t)
-  let t1855 := (t1683 * t1854)
-  let t1856 := (t1684 * t1854)
-  let t1857 := (t1685 * t1854)
-  let t1858 := (t1686 * t1854)
-  let t1859 := (t1811 + t1855)
-  let t1860 := (t1812 + t1856)
-  let t1861 := (t1813 + t1857)
-  let t1862 := (t1814 + t1858)
-  let t1870 := (sqrt ((t1862 * t1862) + (((t1861 * t1861) + (t1860 * t1860)) + (t1859 * t1859))))
-  let t1875 := (t1833 + t1855)
-  let t1876 := (t1834 + t1856)
-  let t1877 := (t1835 + t1857)
-  let t1878 := (t1836 + t1858)
-  let t1886 := (sqrt ((t1878 * t1878) + (((t1877 * t1877) + (t1876 * t1876)) + (t1875 * t1875))))
-  if (0 : α) ≤ t1682 then
-    if t1491 < teps then
-      if t1493 < teps then
-        if t1501 < teps then
-          if t1518 = (0 : α) then
+  let t1505 := (q1.v.z - q2.v.z)
+  let t1506 := (q1.v.y - q2.v.y)
+  let t1507 := (q1.v.x - q2.v.x)
+  let t1508 := (q1.r - q2.r)
+  let t1517 := (q1.v.z + q2.v.z)
+  let t1518 := (q1.v.y + q2.v.y)
+  let t1519 := (q1.v.x + q2.v.x)
+  let t1520 := (q1.r + q2.r)
+  let t1530 := ((2 : α) * (atan2 (sqrt ((t1508 * t1508) + (((t1507 * t1507) + (t1506 * t1506)) + (t1505 * t1505)))) (sqrt ((t1520 * t1520) + (((t1519 * t1519) + (t1518 * t1518)) + (t1517 * t1517))))))
+  let t1532 := ((1 : α) - t)
+  let t1533 := (t1530 * t1530)
+  let t1534 := (t * t1530)
+  let t1535 := (t1534 * t1534)
+  let t1536 := ((1 : α) / (1 : α))
+  let t1537 := (t1536 * t)
+  let t1538 := (q2.v.z * t1537)
+  let t1539 := (q2.v.y * t1537)
+  let t1540 := (q2.v.x * t1537)
+  let t1541 := (q2.r * t1537)
+  let t1542 := (t1532 * t1530)
+  let t1543 := (t1542 * t1542)
+  let t1544 := (t1536 * t1532)
+  let t1545 := (q1.v.z * t1544)
+  let t1546 := (q1.v.y * t1544)
+  let t1547 := (q1.v.x * t1544)
+  let t1548 := (q1.r * t1544)
+  let t1549 := (t1545 + t1538)
+  let t1550 := (t1546 + t1539)
+  let t1551 := (t1547 + t1540)
+  let t1552 := (t1548 + t1541)
+  let t1560 := (sqrt ((t1552 * t1552) + (((t1551 * t1551) + (t1550 * t1550)) + (t1549 * t1549))))
+  let t1566 := ((sin t1542) / t1542)
+  let t1568 := ((t1566 / (1 : α)) * t1532)
+  let t1569 := (q1.v.z * t1568)
+  let t1570 := (q1.v.y * t1568)
+  let t1571 := (q1.v.x * t1568)
+  let t1572 := (q1.r * t1568)
+  let t1573 := (t1569 + t1538)
+  let t1574 := (t1570 + t1539)
+  let t1575 := (t1571 + t1540)
+  let t1576 := (t1572 + t1541)
+  let t1584 := (sqrt ((t1576 * t1576) + (((t1575 * t1575) + (t1574 * t1574)) + (t1573 * t1573))))
+  let t1590 := ((sin t1534) / t1534)
+  let t1592 := ((t1590 / (1 : α)) * t)
+  let t1593 := (q2.v.z * t1592)
+  let t1594 := (q2.v.y * t1592)
+  let t1595 := (q2.v.x * t1592)
+  let t1596 := (q2.r * t1592)
+  let t1597 := (t1545 + t1593)
+  let t1598 := (t1546 + t1594)
+  let t1599 := (t1547 + t1595)
+  let t1600 := (t1548 + t1596)
+  let t1608 := (sqrt ((t1600 * t1600) + (((t1599 * t1599) + (t1598 * t1598)) + (t1597 * t1597))))
+  let t1613 := (t1569 + t1593)
+  let t1614 := (t1570 + t1594)
+  let t1615 := (t1571 + t1595)
+  let t1616 := (t1572 + t1596)
+  let t1624 := (sqrt ((t1616 * t1616) + (((t1615 * t1615) + (t1614 * t1614)) + (t1613 * t1613))))
+  let t1630 := ((sin t1530) / t1530)
+  let t1631 := ((1 : α) / t1630)
+  let t1632 := (t1631 * t)
+  let t1633 := (q2.v.z * t1632)
+  let t1634 := (q2.v.y * t1632)
+  let t1635 := (q2.v.x * t1632)
+  let t1636 := (q2.r * t1632)
+  let t1637 := (t1631 * t1532)
+  let t1638 := (q1.v.z * t1637)
+  let t1639 := (q1.v.y * t1637)
+  let t1640 := (q1.v.x * t1637)
+  let t1641 := (q1.r * t1637)
+  let t1642 := (t1638 + t1633)
+  let t1643 := (t1639 + t1634)
+  let t1644 := (t1640 + t1635)
+  let t1645 := (t1641 + t1636)
+  let t1653 := (sqrt ((t1645 * t1645) + (((t1644 * t1644) + (t1643 * t1643)) + (t1642 * t1642))))
+  let t1659 := ((t1566 / t1630) * t1532)
+  let t1660 := (q1.v.z * t1659)
+  let t1661 := (q1.v.y * t1659)
+  let t1662 := (q1.v.x * t1659)
+  let t1663 := (q1.r * t1659)
+  let t1664 := (t1660 + t1633)
+  let t1665 := (t1661 + t1634)
+  let t1666 := (t1662 + t1635)
+  let t1667 := (t1663 + t1636)
+  let t1675 := (sqrt ((t1667 * t1667) + (((t1666 * t1666) + (t1665 * t1665)) + (t1664 * t1664))))
+  let t1681 := ((t1590 / t1630) * t)
+  let t1682 := (q2.v.z * t1681)
+  let t1683 := (q2.v.y * t1681)
+  let t1684 := (q2.v.x * t1681)
+  let t1685 := (q2.r * t1681)
+  let t1686 := (t1638 + t1682)
+  let t1687 := (t1639 + t1683)
+  let t1688 := (t1640 + t1684)
+  let t1689 := (t1641 + t1685)
+  let t1697 := (sqrt ((t1689 * t1689) + (((t1688 * t1688) + (t1687 * t1687)) + (t1686 * t1686))))
+  let t1702 := (t1660 + t1682)
+  let t1703 := (t1661 + t1683)
+  let t1704 := (t1662 + t1684)
+  let t1705 := (t1663 + t1685)
+  let t1713 := (sqrt ((t1705 * t1705) + (((t1704 * t1704) + (t1703 * t1703)) + (t1702 * t1702))))
+  let t1724 := ((q1.r * q2.r) + (((q1.v.x * q2.v.x) + (q1.v.y * q2.v.y)) + (q1.v.z * q2.v.z)))
+  let t1725 := (-q2.v.z)
+  let t1726 := (-q2.v.y)
+  let t1727 := (-q2.v.x)
+  let t1728 := (-q2.r)
+  let t1729 := (q1.v.z - t1725)
+  let t1730 := (q1.v.y - t1726)
+  let t1731 := (q1.v.x - t1727)
+  let t1732 := (q1.r - t1728)
+  let t1741 := (q1.v.z + t1725)
+  let t1742 := (q1.v.y + t1726)
+  let t1743 := (q1.v.x + t1727)
+  let t1744 := (q1.r + t1728)
+  let t1754 := ((2 : α) * (atan2 (sqrt ((t1732 * t1732) + (((t1731 * t1731) + (t1730 * t1730)) + (t1729 * t1729)))) (sqrt ((t1744 * t1744) + (((t1743 * t1743) + (t1742 * t1742)) + (t1741 * t1741))))))
+  let t1755 := (t1754 * t1754)
+  let t1756 := (t * t1754)
+  let t1757 := (t1756 * t1756)
+  let t1758 := (t1725 * t1537)
+  let t1759 := (t1726 * t1537)
+  let t1760 := (t1727 * t1537)
+  let t1761 := (t1728 * t1537)
+  let t1762 := (t1532 * t1754)
+  let t1763 := (t1762 * t1762)
+  let t1764 := (t1545 + t1758)
+  let t1765 := (t1546 + t1759)
+  let t1766 := (t1547 + t1760)
+  let t1767 := (t1548 + t1761)
+  let t1775 := (sqrt ((t1767 * t1767) + (((t1766 * t1766) + (t1765 * t1765)) + (t1764 * t1764))))
+  let t1781 := ((sin t1762) / t1762)
+  let t1783 := ((t1781 / (1 : α)) * t1532)
+  let t1784 := (q1.v.z * t1783)
+  let t1785 := (q1.v.y * t1783)
+  let t1786 := (q1.v.x * t1783)
+  let t1787 := (q1.r * t1783)
+  let t1788 := (t1784 + t1758)
+  let t1789 := (t1785 + t1759)
+  let t1790 := (t1786 + t1760)
+  let t1791 := (t1787 + t1761)
+  let t1799 := (sqrt ((t1791 * t1791) + (((t1790 * t1790) + (t1789 * t1789)) + (t1788 * t1788))))
+  let t1805 := ((sin t1756) / t1756)
+  let t1807 := ((t1805 / (1 : α)) * t)
+  let t1808 := (t1725 * t1807)
+  let t1809 := (t1726 * t1807)
+  let t1810 := (t1727 * t1807)
+  let t1811 := (t1728 * t1807)
+  let t1812 := (t1545 + t1808)
+  let t1813 := (t1546 + t1809)
+  let t1814 := (t1547 + t1810)
+  let t1815 := (t1548 + t1811)
+  let t1823 := (sqrt ((t1815 * t1815) + (((t1814 * t1814) + (t1813 * t1813)) + (t1812 * t1812))))
+  let t1828 := (t1784 + t1808)
+  let t1829 := (t1785 + t1809)
+  let t1830 := (t1786 + t1810)
+  let t1831 := (t1787 + t1811)
+  let t1839 := (sqrt ((t1831 * t1831) + (((t1830 * t1830) + (t1829 * t1829)) + (t1828 * t1828))))
+  let t1845 := ((sin t1754) / t1754)
+  let t1846 := ((1 : α) / t1845)
+  let t1847 := (t1846 * t)
+  let t1848 := (t1725 * t1847)
+  let t1849 := (t1726 * t1847)
+  let t1850 := (t1727 * t1847)
+  let t1851 := (t1728 * t1847)
+  let t1852 := (t1846 * t1532)
+  let t1853 := (q1.v.z * t1852)
+  let t1854 := (q1.v.y * t1852)
+  let t1855 := (q1.v.x * t1852)
+  let t1856 := (q1.r * t1852)
+  let t1857 := (t1853 + t1848)
+  let t1858 := (t1854 + t1849)
+  let t1859 := (t1855 + t1850)
+  let t1860 := (t1856 + t1851)
+  let t1868 := (sqrt ((t1860 * t1860) + (((t1859 * t1859) + (t1858 * t1858)) + (t1857 * t1857))))
+  let t1874 := ((t1781 / t1845) * t1532)
+  let t1875 := (q1.v.z * t1874)
+  let t1876 := (q1.v.y * t1874)
+  let t1877 := (q1.v.x * t1874)
+  let t1878 := (q1.r * t1874)
+  let t1879 := (t1875 + t1848)
+  let t1880 := (t1876 + t1849)
+  let t1881 := (t1877 + t1850)
+  let t1882 := (t1878 + t1851)
+  let t1890 := (sqrt ((t1882 * t1882) + (((t1881 * t1881) + (t1880 * t1880)) + (t1879 * t1879))))
+  let t1896 := ((t1805 / t1845) * t)
+  let t1897 := (t1725 * t1896)
+  let t1898 := (t1726 * t1896)
+  let t1899 := (t1727 * t1896)
+  let t1900 := (t1728 * t1896)
+  let t1901 := (t1853 + t1897)
+  let t1902 := (t1854 + t1898)
+  let t1903 := (t1855 + t1899)
+  let t1904 := (t1856 + t1900)
+  let t1912 := (sqrt ((t1904 * t1904) + (((t1903 * t1903) + (t1902 * t1902)) + (t1901 * t1901))))
+  let t1917 := (t1875 + t1897)
+  let t1918 := (t1876 + t1898)
+  let t1919 := (t1877 + t1899)
+  let t1920 := (t1878 + t1900)
+  let t1928 := (sqrt ((t1920 * t1920) + (((t1919 * t1919) + (t1918 * t1918)) + (t1917 * t1917))))
+  if (0 : α) ≤ t1724 then
+    if t1533 < teps then
+      if t1535 < teps then
+        if t1543 < teps then
+          if t1560 = (0 : α) then
             ⟨(1 : α), ⟨(0 : α), (0 : α), (0 : α)⟩⟩
           else
-            ⟨(t1510 / t1518), ⟨(t1509 / t1518), (t1508 / t1518), (t1507 / t1518)⟩⟩
+            ⟨(t1552 / t1560), ⟨(t1551 / t1560), (t1550 / t1560), (t1549 / t1560)⟩⟩
         else
-          if t1542 = (0 : α) then
+          if t1584 = (0 : α) then
             ⟨(1 : α), ⟨(0 : α), (0 : α), (0 : α)⟩⟩
           else
-            ⟨(t1534 / t1542), ⟨(t1533 / t1542), (t1532 / t1542), (t1531 / t1542)⟩⟩
+            ⟨(t1576 / t1584), ⟨(t1575 / t1584), (t1574 / t1584), (t1573 / t1584)⟩⟩
       else
-        if t1501 < teps then
-          if t1566 = (0 : α) then
+        if t1543 < teps then
+          if t1608 = (0 : α) then
             ⟨(1 : α), ⟨(0 : α), (0 : α), (0 : α)⟩⟩
           else
-            ⟨(t1558 / t1566), ⟨(t1557 / t1566), (t1556 / t1566), (t1555 / t1566)⟩⟩
+            ⟨(t1600 / t1608), ⟨(t1599 / t1608), (t1598 / t1608), (t1597 / t1608)⟩⟩
         else
-          if t1582 = (0 : α) then
+          if t1624 = (0 : α) then
             ⟨(1 : α), ⟨(0 : α), (0 : α), (0 : α)⟩⟩
           else
-            ⟨(t1574 / t1582), ⟨(t1573 / t1582), (t1572 / t1582), (t1571 / t1582)⟩⟩
+            ⟨(t1616 / t1624), ⟨(t1615 / t1624), (t1614 / t1624), (t1613 / t1624)⟩⟩
     else
-      if t1493 < teps then
-        if t1501 < teps then
-          if t1611 = (0 : α) then
+      if t1535 < teps then
+        if t1543 < teps then
+          if t1653 = (0 : α) then
             ⟨(1 : α), ⟨(0 : α), (0 : α), (0 : α)⟩⟩
           else
-            ⟨(t1603 / t1611), ⟨(t1602 / t1611), (t1601 / t1611), (t1600 / t1611)⟩⟩
+            ⟨(t1645 / t1653), ⟨(t1644 / t1653), (t1643 / t1653), (t1642 / t1653)⟩⟩
         else
-          if t1633 = (0 : α) then
+          if t1675 = (0 : α) then
             ⟨(1 : α), ⟨(0 : α), (0 : α), (0 : α)⟩⟩
           else
-            ⟨(t1625 / t1633), ⟨(t1624 / t1633), (t1623 / t1633), (t1622 / t1633)⟩⟩
+            ⟨(t1667 / t1675), ⟨(t1666 / t1675), (t1665 / t1675), (t1664 / t1675)⟩⟩
       else
-        if t1501 < teps then
-          if t1655 = (0 : α) then
+        if t1543 < teps then
+          if t1697 = (0 : α) then
             ⟨(1 : α), ⟨(0 : α), (0 : α), (0 : α)⟩⟩
           else
-            ⟨(t1647 / t1655), ⟨(t1646 / t1655), (t1645 / t1655), (t1644 / t1655)⟩⟩
+            ⟨(t1689 / t1697), ⟨(t1688 / t1697), (t1687 / t1697), (t1686 / t1697)⟩⟩
         else
-          if t1671 = (0 : α) then
+          if t1713 = (0 : α) then
             ⟨(1 : α), ⟨(0 : α), (0 : α), (0 : α)⟩⟩
           else
-            ⟨(t1663 / t1671), ⟨(t1662 / t1671), (t1661 / t1671), (t1660 / t1671)⟩⟩
+            ⟨(t1705 / t1713), ⟨(t1704 / t1713), (t1703 / t1713), (t1702 / t1713)⟩⟩
   else
-    if t1713 < teps then
-      if t1715 < teps then
-        if t1721 < teps then
-          if t1733 = (0 : α) then
+    if t1755 < teps then
+      if t1757 < teps then
+        if t1763 < teps then
+          if t1775 = (0 : α) then
             ⟨(1 : α), ⟨(0 : α), (0 : α), (0 : α)⟩⟩
           else
-            ⟨(t1725 / t1733), ⟨(t1724 / t1733), (t1723 / t1733), (t1722 / t1733)⟩⟩
+            ⟨(t1767 / t1775), ⟨(t1766 / t1775), (t1765 / t1775), (t1764 / t1775)⟩⟩
         else
-          if t1757 = (0 : α) then
+          if t1799 = (0 : α) then
             ⟨(1 : α), ⟨(0 : α), (0 : α), (0 : α)⟩⟩
           else
-            ⟨(t1749 / t1757), ⟨(t1748 / t1757), (t1747 / t1757), (t1746 / t1757)⟩⟩
+            ⟨(t1791 / t1799), ⟨(t1790 / t1799), (t1789 / t1799), (t1788 / t1799)⟩⟩
       else
-        if t1721 < teps then
-          if t1781 = (0 : α) then
+        if t1763 < teps then
+          if t1823 = (0 : α) then
             ⟨(1 : α), ⟨(0 : α), (0 : α), (0 : α)⟩⟩
           else
-            ⟨(t1773 / t1781), ⟨(t1772 / t1781), (t1771 / t1781), (t1770 / t1781)⟩⟩
+            ⟨(t1815 / t1823), ⟨(t1814 / t1823), (t1813 / t1823), (t1812 / t1823)⟩⟩
         else
-          if t1797 = (0 : α) then
+          if t1839 = (0 : α) then
             ⟨(1 : α), ⟨(0 : α), (0 : α), (0 : α)⟩⟩
           else
-            ⟨(t1789 / t1797), ⟨(t1788 / t1797), (t1787 / t1797), (t1786 / t1797)⟩⟩
+            ⟨(t1831 / t1839), ⟨(t1830 / t1839), (t1829 / t1839), (t1828 / t1839)⟩⟩
     else
-      if t1715 < teps then
-        if t1721 < teps then
-          if t1826 = (0 : α) then
+      if t1757 < teps then
+        if t1763 < teps then
+          if t1868 = (0 : α) then
             ⟨(1 : α), ⟨(0 : α), (0 : α), (0 : α)⟩⟩
           else
-            ⟨(t1818 / t1826), ⟨(t1817 / t1826), (t1816 / t1826), (t1815 / t1826)⟩⟩
+            ⟨(t1860 / t1868), ⟨(t1859 / t1868), (t1858 / t1868), (t1857 / t1868)⟩⟩
         else
-          if t1848 = (0 : α) then
+          if t1890 = (0 : α) then
             ⟨(1 : α), ⟨(0 : α), (0 : α), (0 : α)⟩⟩
           else
-            ⟨(t1840 / t1848), ⟨(t1839 / t1848), (t1838 / t1848), (t1837 / t1848)⟩⟩
+            ⟨(t1882 / t1890), ⟨(t1881 / t1890), (t1880 / t1890), (t1879 / t1890)⟩⟩
       else
-        if t1721 < teps then
-          if t1870 = (0 : α) then
+        if t1763 < teps then
+          if t1912 = (0 : α) then
             ⟨(1 : α), ⟨(0 : α), (0 : α), (0 : α)⟩⟩
           else
-            ⟨(t1862 / t1870), ⟨(t1861 / t1870), (t1860 / t1870), (t1859 / t1870)⟩⟩
+            ⟨(t1904 / t1912), ⟨(t1903 / t1912), (t1902 / t1912), (t1901 / t1912)⟩⟩
         else
-          if t1886 = (0 : α) then
+          if t1928 = (0 : α) then
             ⟨(1 : α), ⟨(0 : α), (0 : α), (0 : α)⟩⟩
           else
-            ⟨(t1878 / t1886), ⟨(t1877 / t1886), (t1876 / t1886), (t1875 / t1886)⟩⟩
+            ⟨(t1920 / t1928), ⟨(t1919 / t1928), (t1918 / t1928), (t1917 / t1928)⟩⟩
 
 /-- extracted from the C++ template at T = Sym; 96 path(s) -/
 def C10.Quat.intermediate {α : Type} [Add α] [Sub α] [Mul α] [Div α] [Neg α] [LT α] [LE α] [DecidableLT α] [DecidableLE α] [DecidableEq α] [OfNat α 0] [OfNat α 1] [OfNat α 2] [OfNat α 4] (tmin : α) (tmax : α) (sqrt : α → α) (sin : α → α) (cos : α → α) (acos : α → α) (q0 : Quat α) (q1 : Quat α) (q2 : Quat α) : (Quat α) :=
-  let t1901 := ((q1.r * q1.r) + (((q1.v.x * q1.v.x) + (q1.v.y * q1.v.y)) + (q1.v.z * q1.v.z)))
-  let t1905 := ((-q1.v.z) / t1901)
-  let t1906 := ((-q1.v.y) / t1901)
-  let t1907 := ((-q1.v.x) / t1901)
-  let t1908 := (q1.r / t1901)
-  let t1927 := (((t1908 * q2.v.z) + (t1905 * q2.r)) + ((t1907 * q2.v.y) - (t1906 * q2.v.x)))
-  let t1928 := (((t1908 * q2.v.y) + (t1906 * q2.r)) + ((t1905 * q2.v.x) - (t1907 * q2.v.z)))
-  let t1929 := (((t1908 * q2.v.x) + (t1907 * q2.r)) + ((t1906 * q2.v.z) - (t1905 * q2.v.y)))
-  let t1955 := (((t1908 * q0.v.z) + (t1905 * q0.r)) + ((t1907 * q0.v.y) - (t1906 * q0.v.x)))
-  let t1956 := (((t1908 * q0.v.y) + (t1906 * q0.r)) + ((t1905 * q0.v.x) - (t1907 * q0.v.z)))
-  let t1957 := (((t1908 * q0.v.x) + (t1907 * q0.r)) + ((t1906 * q0.v.z) - (t1905 * q0.v.y)))
-  let t1966 := (acos (smin ((t1908 * q2.r) - (((t1907 * q2.v.x) + (t1906 * q2.v.y)) + (t1905 * q2.v.z))) (1 : α)))
-  let t1968 := (acos (smin ((t1908 * q0.r) - (((t1907 * q0.v.x) + (t1906 * q0.v.y)) + (t1905 * q0.v.z))) (1 : α)))
-  let t1973 := ((t1955 + t1927) * (-((1 : α) / (4 : α))))
-  let t1974 := ((t1956 + t1928) * (-((1 : α) / (4 : α))))
-  let t1975 := ((t1957 + t1929) * (-((1 : α) / (4 : α))))
-  let t1977 := (V3.length tmin sqrt ⟨t1975, t1974, t1973⟩)
-  let t1978 := (sin t1977)
-  let t1979 := (sabs t1977)
-  let t1980 := (tmax * t1979)
-  let t1981 := (sabs t1978)
-  let t1982 := (cos t1977)
-  let t1983 := (t1973 * (1 : α))
-  let t1984 := (t1974 * (1 : α))
-  let t1985 := (t1975 * (1 : α))
-  let t1995 := (q1.v.z * t1982)
-  let t1996 := (q1.v.y * t1982)
-  let t1997 := (q1.v.x * t1982)
-  let t2004 := (((q1.r * t1983) + t1995) + ((q1.v.x * t1984) - (q1.v.y * t1985)))
-  let t2005 := (((q1.r * t1984) + t1996) + ((q1.v.z * t1985) - (q1.v.x * t1983)))
-  let t2006 := (((q1.r * t1985) + t1997) + ((q1.v.y * t1983) - (q1.v.z * t1984)))
-  let t2012 := (q1.r * t1982)
-  let t2013 := (t2012 - (((q1.v.x * t1985) + (q1.v.y * t1984)) + (q1.v.z * t1983)))
-  let t2021 := (sqrt ((t2013 * t2013) + (((t2006 * t2006) + (t2005 * t2005)) + (t2004 * t2004))))
-  let t2026 := (t1978 / t1977)
-  let t2027 := (t1973 * t2026)
-  let t2028 := (t1974 * t2026)
-  let t2029 := (t1975 * t2026)
-  let t2045 := (((q1.r * t2027) + t1995) + ((q1.v.x * t2028) - (q1.v.y * t2029)))
-  let t2046 := (((q1.r * t2028) + t1996) + ((q1.v.z * t2029) - (q1.v.x * t2027)))
-  let t2047 := (((q1.r * t2029) + t1997) + ((q1.v.y * t2027) - (q1.v.z * t2028)))
-  let t2053 := (t2012 - (((q1.v.x * t2029) + (q1.v.y * t2028)) + (q1.v.z * t2027)))
-  let t2061 := (sqrt ((t2053 * t2053) + (((t2047 * t2047) + (t2046 * t2046)) + (t2045 * t2045))))
-  let t2062 := (t2053 / t2061)
-  let t2063 := (t2047 / t2061)
-  let t2064 := (t2046 / t2061)
-  let t2065 := (t2045 / t2061)
-  let t2066 := (sin t1968)
-  let t2067 := (sabs t2066)
-  let t2068 := (tmax * t2067)
-  let t2069 := (sabs t1968)
-  let t2070 := (t1955 * (1 : α))
-  let t2071 := (t1956 * (1 : α))
-  let t2072 := (t1957 * (1 : α))
-  let t2076 := ((t2070 + t1927) * (-((1 : α) / (4 : α))))
-  let t2077 := ((t2071 + t1928) * (-((1 : α) / (4 : α))))
-  let t2078 := ((t2072 + t1929) * (-((1 : α) / (4 : α))))
-  let t2079 := (V3.length tmin sqrt ⟨t2078, t2077, t2076⟩)
-  let t2080 := (sin t2079)
-  let t2081 := (sabs t2079)
-  let t2082 := (tmax * t2081)
-  let t2083 := (sabs t2080)
-  let t2084 := (cos t2079)
-  let t2085 := (t2076 * (1 : α))
-  let t2086 := (t2077 * (1 : α))
-  let t2087 := (t2078 * (1 : α))
-  let t2097 := (q1.v.z * t2084)
-  let t2098 := (q1.v.y * t2084)
-  let t2099 := (q1.v.x * t2084)
-  let t2106 := (((q1.r * t2085) + t2097) + ((q1.v.x * t2086) - (q1.v.y * t2087)))
-  let t2107 := (((q1.r * t2086) + t2098) + ((q1.v.z * t2087) - (q1.v.x * t2085)))
-  let t2108 := (((q1.r * t2087) + t2099) + ((q1.v.y * t2085) - (q1.v.z * t2086)))
-  let t2114 := (q1.r * t2084)
-  let t2115 := (t2114 - (((q1.v.x * t2087) + (q1.v.y * t2086)) + (q1.v.z * t2085)))
-  let t2123 := (sqrt ((t2115 * t2115) + (((t2108 * t2108) + (t2107 * t2107)) + (t2106 * t2106))))
-  let t2128 := (t2080 / t2079)
-  let t2129 := (t2076 * t2128)
-  let t2130 := (t2077 * t2128)
-  let t2131 := (t2078 * t2128)
-  let t2147 := (((q1.r * t2129) + t2097) + ((q1.v.x * t2130) - (q1.v.y * t2131)))
-  let t2148 := (((q1.r * t2130) + t2098) + ((q1.v.z * t2131) - (q1.v.x * t2129)))
-  let t2149 := (((q1.r * t2131) + t2099) + ((q1.v.y * t2129) - (q1.v.z * t2130)))
-  let t2155 := (t2114 - (((q1.v.x * t2131) + (q1.v.y * t2130)) + (q1.v.z * t2129)))
-  let t2163 := (sqrt ((t2155 * t2155) + (((t2149 * t2149) + (t2148 * t2148)) + (t2147 * t2147))))
-  let t2164 := (t2155 / t2163)
-  let t2165 := (t2149 / t2163)
-  let t2166 := (t2148 / t2163)
-  let t2167 := (t2147 / t2163)
-  let t2168 := (t1968 / t2066)
-  let t2169 := (t1955 * t2168)
-  let t2170 := (t1956 * t2168)
-  let t2171 := (t1957 * t2168)
-  let t2175 := ((t2169 + t1927) * (-((1 : α) / (4 : α))))
-  let t2176 := ((t2170 + t1928) * (-((1 : α) / (4 : α))))
-  let t2177 := ((t2171 + t1929) * (-((1 : α) / (4 : α))))
-  let t2178 := (V3.length tmin sqrt ⟨t2177, t2176, t2175⟩)
-  let t2179 := (sin t2178)
-  let t2180 := (sabs t2178)
-  let t2181 := (tmax * t2180)
-  let t2182 := (sabs t2179)
-  let t2183 := (cos t2178)
-  let t2184 := (t2175 * (1 : α))
-  let t2185 := (t2176 * (1 : α))
-  let t2186 := (t2177 * (1 : α))
-  let t2196 := (q1.v.z * t2183)
-  let t2197 := (q1.v.y * t2183)
-  let t2198 := (q1.v.x * t2183)
-  let t2205 := (((q1.r * t2184) + t2196) + ((q1.v.x * t2185) - (q1.v.y * t2186)))
-  let t2206 := (((q1.r * t2185) + t2197) + ((q1.v.z * t2186) - (q1.v.x * t2184)))
-  let t2207 := (((q1.r * t2186) + t2198) + ((q1.v.y * t2184) - (q1.v.z * t2185)))
-  let t2213 := (q1.r * t2183)
-  let t2214 := (t2213 - (((q1.v.x * t2186) + (q1.v.y * t2185)) + (q1.v.z * t2184)))
-  let t2222 := (sqrt ((t2214 * t2214) + (((t2207 * t2207) + (t2206 * t2206)) + (t2205 * t2205))))
-  let t2223 := (t2214 / t2222)
-  let t2224 := (t2207 / t2222)
-  let t2225 := (t2206 / t2222)
-  let t2226 := (t2205 / t2222)
-  let t2227 := (t2179 / t2178)
-  let t2228 := (t2175 * t2227)
-  let t2229 := (t2176 * t2227)
-  let t2230 := (t2177 * t2227)
-  let t2246 := (((q1.r * t2228) + t2196) + ((q1.v.x * t2229) - (q1.v.y * t2230)))
-  let t2247 := (((q1.r * t2229) + t2197) + ((q1.v.z * t2230) - (q1.v.x * t2228)))
-  let t2248 := (((q1.r * t2230) + t2198) + ((q1.v.y * t2228) - (q1.v.z * t2229)))
-  let t2254 := (t2213 - (((q1.v.x * t2230) + (q1.v.y * t2229)) + (q1.v.z * t2228)))
-  let t2262 := (sqrt ((t2254 * t2254) + (((t2248 * t2248) + (t2247 * t2247)) + (t2246 * t2246))))
-  let t2263 := (t2254 / t2262)
-  let t2264 := (t2248 / t2262)
-  let t2265 := (t2247 / t2262)
-  let t2266 := (t2246 / t2262)
-  let t2267 := (sin t1966)
-  let t2268 := (sabs t2267)
-  let t2269 := (tmax * t2268)
-  let t2270 := (sabs t1966)
-  let t2271 := (t1927 * (1 : α))
-  let t2272 := (t1928 * (1 : α))
-  let t2273 := (t1929 * (1 : α))
-  let t2277 := ((t1955 + t2271) * (-((1 : α) / (4 : α))))
-  let t2278 := ((t1956 + t2272) * (-((1 : α) / (4 : α))))
-  let t2279 := ((t1957 + t2273) * (-((1 : α) / (4 : α))))
-  let t2280 := (V3.length tmin sqrt ⟨t2279, t2278, t2277⟩)
-  let t2281 := (sin t2280)
-  let t2282 := (sabs t2280)
-  let t2283 := (tmax * t2282)
-  let t2284 := (sabs t2281)
-  let t2285 := (cos t2280)
-  let t2286 := (t2277 * (1 : α))
-  let t2287 := (t2278 * (1 : α))
-  let t2288 := (t2279 * (1 : α))
-  let t2298 := (q1.v.z * t2285)
-  let t2299 := (q1.v.y * t2285)
-  let t2300 := (q1.v.x * t2285)
-  let t2307 := (((q1.r * t2286) + t2298) + ((q1.v.x * t2287) - (q1.v.y * t2288)))
-  let t2308 := (((q1.r * t2287) + t2299) + ((q1.v.z * t2288) - (q1.v.x * t2286)))
-  let t2309 := (((q1.r * t2288) + t2300) + ((q1.v.y * t2286) - (q1.v.z * t2287)))
-  let t2315 := (q1.r * t2285)
-  let t2316 := (t2315 - (((q1.v.x * t2288) + (q1.v.y * t2287)) + (q1.v.z * t2286)))
-  let t2324 := (sqrt ((t2316 * t2316) + (((t2309 * t2309) + (t2308 * t2308)) + (t2307 * t2307))))
-  let t2329 := (t2281 / t2280)
-  let t2330 := (t2277 * t2329)
-  let t2331 := (t2278 * t2329)
-  let t2332 := (t2279 * t2329)
-  let t2348 := (((q1.r * t2330) + t2298) + ((q1.v.x * t2331) - (q1.v.y * t2332)))
-  let t2349 := (((q1.r * t2331) + t2299) + ((q1.v.z * t2332) - (q1.v.x * t2330)))
-  let t2350 := (((q1.r * t2332) + t2300) + ((q1.v.y * t2330) - (q1.v.z * t2331)))
-  let t2356 := (t2315 - (((q1.v.x * t2332) + (q1.v.y * t2331)) + (q1.v.z * t2330)))
-  let t2364 := (sqrt ((t2356 * t2356) + (((t2350 * t2350) + (t2349 * t2349)) + (t2348 * t2348))))
-  let t2365 := (t2356 / t2364)
-  let t2366 := (t2350 / t2364)
-  let t2367 := (t2349 / t2364)
-  let t2368 := (t2348 / t2364)
-  let t2372 := ((t2070 + t2271) * (-((1 : α) / (4 : α))))
-  let t2373 := ((t2071 + t2272) * (-((1 : α) / (4 : α))))
-  let t2374 := ((t2072 + t2273) * (-((1 : α) / (4 : α))))
-  let t2375 := (V3.length tmin sqrt ⟨t2374, t2373, t2372⟩)
-  let t2376 := (sin t2375)
-  let t2377 := (sabs t2375)
-  let t2378 := (tmax * t2377)
-  let t2379 := (sabs t2376)
-  let t2380 := (cos t2375)
-  let t2381 := (t2372 * (1 : α))
-  let t2382 := (t2373 * (1 : α))
-  let t2383 := (t2374 * (1 : α))
-  let t2393 := (q1.v.z * t2380)
-  let t2394 := (q1.v.y * t2380)
-  let t2395 := (q1.v.x * t2380)
-  let t2402 := (((q1.r * t2381) + t2393) + ((q1.v.x * t2382) - (q1.v.y * t2383)))
-  let t2403 := (((q1.r * t2382) + t2394) + ((q1.v.z * t2383) - (q1.v.x * t2381)))
-  let t2404 := (((q1.r * t2383) + t2395) + ((q1.v.y * t2381) - (q1.v.z * t2382)))
-  let t2410 := (q1.r * t2380)
-  let t2411 := (t2410 - (((q1.v.x * t2383) + (q1.v.y * t2382)) + (q1.v.z * t2381)))
-  let t2419 := (sqrt ((t2411 * t2411) + (((t2404 * t2404) + (t2403 * t2403)) + (t2402 * t2402))))
-  let t2424 := (t2376 / t2375)
-  let t2425 := (t2372 * t2424)
-  let t2426 := (t2373 * t2424)
-  let t2427 := (t2374 * t2424)
-  let t2443 := (((q1.r * t2425) + t2393) + ((q1.v.x * t2426) - (q1.v.y * t2427)))
-  let t2444 := (((q1.r * t2426) + t2394) + ((q1.v.z * t2427) - (q1.v.x * t2425)))
-  let t2445 := (((q1.r * t2427) + t2395) + ((q1.v.y * t2425) - (q1.v.z * t2426)))
-  let t2451 := (t2410 - (((q1.v.x * t2427) + (q1.v.y * t2426)) + (q1.v.z * t2425)))
-  let t2459 := (sqrt ((t2451 * t2451) + (((t2445 * t2445) + (t2444 * t2444)) + (t2443 * t2443))))
-  let t2460 := (t2451 / t2459)
-  let t2461 := (t2445 / t2459)
-  let t2462 := (t2444 / t2459)
-  let t2463 := (t2443 / t2459)
-  let t2467 := ((t2169 + t2271) * (-((1 : α) / (4 : α))))
-  let t2468 := ((t2170 + t2272) * (-((1 : α) / (4 : α))))
-  let t2469 := ((t2171 + t2273) * (-((1 : α) / (4 : α))))
-  let t2470 := (V3.length tmin sqrt ⟨t2469, t2468, t2467⟩)
-  let t2471 := (sin t2470)
-  let t2472 := (sabs t2470)
-  let t2473 := (tmax * t2472)
-  let t2474 := (sabs t2471)
-  let t2475 := (cos t2470)
-  let t2476 := (t2467 * (1 : α))
-  let t2477 := (t2468 * (1 : α))
-  let t2478 := (t2469 * (1 : α))
-  let t2488 := (q1.v.z * t2475)
-  let t2489 := (q1.v.y * t2475)
-  let t2490 := (q1.v.x * t2475)
-  let t2497 := (((q1.r * t2476) + t2488) + ((q1.v.x * t2477) - (q1.v.y * t2478)))
-  let t2498 := (((q1.r * t2477) + t2489) + ((q1.v.z * t2478) - (q1.v.x * t2476)))
-  let t2499 := (((q1.r * t2478) + t2490) + ((q1.v.y * t2476) - (q1.v.z * t2477)))
-  let t2505 := (q1.r * t2475)
-  let t2506 := (t2505 - (((q1.v.x * t2478) + (q1.v.y * t2477)) + (q1.v.z * t2476)))
-  let t2514 := (sqrt ((t2506 * t2506) + (((t2499 * t2499) + (t2498 * t2498)) + (t2497 * t2497))))
-  let t2515 := (t2506 / t2514)
-  let t2516 := (t2499 / t2514)
-  let t2517 := (t2498 / t2514)
-  let t2518 := (t2497 / t2514)
-  let t2519 := (t2471 / t2470)
-  let t2520 := (t2467 * t2519)
-  let t2521 := (t2468 * t2519)
-  let t2522 := (t2469 * t2519)
-  let t2538 := (((q1.r * t2520) + t2488) + ((q1.v.x * t2521) - (q1.v.y * t2522)))
-  let t2539 := (((q1.r * t2521) + t2489) + ((q1.v.z * t2522) - (q1.v.x * t2520)))
-  let t2540 := (((q1.r * t2522) + t2490) + ((q1.v.y * t2520) - (q1.v.z * t2521)))
-  let t2546 := (t2505 - (((q1.v.x * t2522) + (q1.v.y * t2521)) + (q1.v.z * t2520)))
-  let t2554 := (sqrt ((t2546 * t2546) + (((t2540 * t2540) + (t2539 * t2539)) + (t2538 * t2538))))
-  let t2555 := (t2546 / t2554)
-  let t2556 := (t2540 / t2554)
-  let t2557 := (t2539 / t2554)
-  let t2558 := (t2538 / t2554)
-  let t2559 := (t1966 / t2267)
-  let t2560 := (t1927 * t2559)
-  let t2561 := (t1928 * t2559)
-  let t2562 := (t1929 * t2559)
-  let t2566 := ((t1955 + t2560) * (-((1 : α) / (4 : α))))
-  let t2567 := ((t1956 + t2561) * (-((1 : α) / (4 : α))))
-  let t2568 := ((t1957 + t2562) * (-((1 : α) / (4 : α))))
-  let t2569 := (V3.length tmin sqrt ⟨t2568, t2567, t2566⟩)
-  let t2570 := (sin t2569)
-  let t2571 := (sabs t2569)
-  let t2572 := (tmax * t2571)
-  let t2573 := (sabs t2570)
-  let t2574 := (cos t2569)
-  let t2575 := (t2566 * (1 : α))
-  let t2576 := (t2567 * (1 : α))
-  let t2577 := (t2568 * (1 : α))
-  let t2587 := (q1.v.z * t2574)
-  let t2588 := (q1.v.y * t2574)
-  let t2589 := (q1.v.x * t2574)
-  let t2596 := (((q1.r * t2575) + t2587) + ((q1.v.x * t2576) - (q1.v.y * t2577)))
-  let t2597 := (((q1.r * t2576) + t2588) + ((q1.v.z * t2577) - (q1.v.x * t2575)))
-  let t2598 := (((q1.r * t2577) + t2589) + ((q1.v.y * t2575) - (q1.v.z * t2576)))
-  let t2604 := (q1.r * t2574)
-  let t2605 := (t2604 - (((q1.v.x * t2577) + (q1.v.y * t2576)) + (q1.v.z * t2575)))
-  let t2613 := (sqrt ((t2605 * t2605) + (((t2598 * t2598) + (t2597 * t2597)) + (t2596 * t2596))))
-  let t2614 := (t2605 / t2613)
-  let t2615 := (t2598 / t2613)
-  let t2616 := (t2597 / t2613)
-  let t2617 := (t2596 / t2613)
-  let t2618 := (t2570 / t2569)
-  let t2619 := (t2566 * t2618)
-  let t2620 := (t2567 * t2618)
-  let t2621 := (t2568 * t2618)
-  let t2637 := (((q1.r * t2619) + t2587) + ((q1.v.x * t2620) - (q1.v.y * t2621)))
-  let t2638 := (((q1.r * t2620) + t2588) + ((q1.v.z * t2621) - (q1.v.x * t2619)))
-  let t2639 := (((q1.r * t2621) + t2589) + ((q1.v.y * t2619) - (q1.v.z * t2620)))
-  let t2645 := (t2604 - (((q1.v.x * t2621) + (q1.v.y * t2620)) + (q1.v.z * t2619)))
-  let t2653 := (sqrt ((t2645 * t2645) + (((t2639 * t2639) + (t2638 * t2638)) + (t2637 * t2637))))
-  let t2654 := (t2645 / t2653)
-  let t2655 := (t2639 / t2653)
-  let t2656 := (t2638 / t2653)
-  let t2657 := (t2637 / t2653)
-  let t2661 := ((t2070 + t2560) * (-((1 : α) / (4 : α))))
-  let t2662 := ((t2071 + t2561) * (-((1 : α) / (4 : α))))
-  let t2663 := ((t2072 + t2562) * (-((1 : α) / (4 : α))))
-  let t2664 := (V3.length tmin sqrt ⟨t2663, t2662, t2661⟩)
-  let t2665 := (sin t2664)
-  let t2666 := (sabs t2664)
-  let t2667 := (tmax * t2666)
-  let t2668 := (sabs t2665)
-  let t2669 := (cos t2664)
-  let t2670 := (t2661 * (1 : α))
-  let t2671 := (t2662 * (1 : α))
-  let t2672 := (t2663 * (1 : α))
-  let t2682 := (q1.v.z * t2669)
-  let t2683 := (q1.v.y * t2669)
-  let t2684 := (q1.v.x * t2669)
-  let t2691 := (((q1.r * t2670) + t2682) + ((q1.v.x * t2671) - (q1.v.y * t2672)))
-  let t2692 := (((q1.r * t2671) + t2683) + ((q1.v.z * t2672) - (q1.v.x * t2670)))
-  let t2693 := (((q1.r * t2672) + t2684) + ((q1.v.y * t2670) - (q1.v.z * t2671)))
-  let t2699 := (q1.r * t2669)
-  let t2700 := (t2699 - (((q1.v.x * t2672) + (q1.v.y * t2671)) + (q1.v.z * t2670)))
-  let t2708 := (sqrt ((t2700 * t2700) + (((t2693 * t2693) + (t2692 * t2692)) + (t2691 * t2691))))
-  let t2709 := (t2700 / t2708)
-  let t2710 := (t2693 / t2708)
-  let t2711 := (t2692 / t2708)
-  let t2712 := (t2691 / t2708)
-  let t2713 := (t2665 / t2664)
-  let t2714 := (t2661 * t2713)
-  let t2715 := (t2662 * t2713)
-  let t2716 := (t2663 * t2713)
-  let t2732 := (((q1.r * t2714) + t2682) + ((q1.v.x * t2715) - (q1.v.y * t2716)))
-  let t2733 := (((q1.r * t2715) + t2683) + ((q1.v.z * t2716) - (q1.v.x * t2714)))
-  let t2734 := (((q1.r * t2716) + t2684) + ((q1.v.y * t2714) - (q1.v.z * t2715)))
-  let t2740 := (t2699 - (((q1.v.x * t2716) + (q1.v.y * t2715)) + (q1.v.z * t2714)))
-  let t2748 := (sqrt ((t2740 * t2740) + (((t2734 * t2734) + (t2733 * t2733)) + (t2732 * t2732))))
-  let t2749 := (t2740 / t2748)
-  let t2750 := (t2734 / t2748)
-  let t2751 := (t2733 / t2748)
-  let t2752 := (t2732 / t2748)
-  let t2756 := ((t2169 + t2560) * (-((1 : α) / (4 : α))))
-  let t2757 := ((t2170 + t2561) * (-((1 : α) / (4 : α))))
-  let t2758 := ((t2171 + t2562) * (-((1 : α) / (4 : α))))
-  let t2759 := (V3.length tmin sqrt ⟨t2758, t2757, t2756⟩)
-  let t2760 := (sin t2759)
-  let t2761 := (sabs t2759)
-  let t2762 := (tmax * t2761)
-  let t2763 := (sabs t2760)
-  let t2764 := (cos t2759)
-  let t2765 := (t2756 * (1 : α))
-  let t2766 := (t2757 * (1 : α))
-  let t2767 := (t2758 * (1 : α))
-  let t2777 := (q1.v.z * t2764)
-  let t2778 := (q1.v.y * t2764)
-  let t2779 := (q1.v.x * t2764)
-  let t2786 := (((q1.r * t2765) + t2777) + ((q1.v.x * t2766) - (q1.v.y * t2767)))
-  let t2787 := (((q1.r * t2766) + t2778) + ((q1.v.z * t2767) - (q1.v.x * t2765)))
-  let t2788 := (((q1.r * t2767) + t2779) + ((q1.v.y * t2765) - (q1.v.z * t2766)))
-  let t2794 := (q1.r * t2764)
-  let t2795 := (t2794 - (((q1.v.x * t2767) + (q1.v.y * t2766)) + (q1.v.z * t2765)))
-  let t2803 := (sqrt ((t2795 * t2795) + (((t2788 * t2788) + (t2787 * t2787)) + (t2786 * t2786))))
-  let t2804 := (t2795 / t2803)
-  let t2805 := (t2788 / t2803)
-  let t2806 := (t2787 / t2803)
-  let t2807 := (t2786 / t2803)
-  let t2808 := (t2760 / t2759)
-  let t2809 := (t2756 * t2808)
-  let t2810 := (t2757 * t2808)
-  let t2811 := (t2758 * t2808)
-  let t2827 := (((q1.r * t2809) + t2777) + ((q1.v.x * t2810) - (q1.v.y * t2811)))
-  let t2828 := (((q1.r * t2810) + t2778) + ((q1.v.z * t2811) - (q1.v.x * t2809)))
-  let t2829 := (((q1.r * t2811) + t2779) + ((q1.v.y * t2809) - (q1.v.z * t2810)))
-  let t2835 := (t2794 - (((q1.v.x * t2811) + (q1.v.y * t2810)) + (q1.v.z * t2809)))
-  let t2843 := (sqrt ((t2835 * t2835) + (((t2829 * t2829) + (t2828 * t2828)) + (t2827 * t2827))))
-  let t2844 := (t2835 / t2843)
-  let t2845 := (t2829 / t2843)
-  let t2846 := (t2828 / t2843)
-  let t2847 := (t2827 / t2843)
-  if t1966 = (0 : α) then
-    if t1968 = (0 : α) then
-      if t1979 < (1 : α) then
-        if t1980 ≤ t1981 then
-          if t2021 = (0 : α) then
+  let t1943 := ((q1.r * q1.r) + (((q1.v.x * q1.v.x) + (q1.v.y * q1.v.y)) + (q1.v.z * q1.v.z)))
+  let t1947 := ((-q1.v.z) / t1943)
+  let t1948 := ((-q1.v.y) / t1943)
+  let t1949 := ((-q1.v.x) / t1943)
+  let t1950 := (q1.r / t1943)
+  let t1969 := (((t1950 * q2.v.z) + (t1947 * q2.r)) + ((t1949 * q2.v.y) - (t1948 * q2.v.x)))
+  let t1970 := (((t1950 * q2.v.y) + (t1948 * q2.r)) + ((t1947 * q2.v.x) - (t1949 * q2.v.z)))
+  let t1971 := (((t1950 * q2.v.x) + (t1949 * q2.r)) + ((t1948 * q2.v.z) - (t1947 * q2.v.y)))
+  let t1997 := (((t1950 * q0.v.z) + (t1947 * q0.r)) + ((t1949 * q0.v.y) - (t1948 * q0.v.x)))
+  let t1998 := (((t1950 * q0.v.y) + (t1948 * q0.r)) + ((t1947 * q0.v.x) - (t1949 * q0.v.z)))
+  let t1999 := (((t1950 * q0.v.x) + (t1949 * q0.r)) + ((t1948 * q0.v.z) - (t1947 * q0.v.y)))
+  let t2008 := (acos (smin ((t1950 * q2.r) - (((t1949 * q2.v.x) + (t1948 * q2.v.y)) + (t1947 * q2.v.z))) (1 : α)))
+  let t2010 := (acos (smin ((t1950 * q0.r) - (((t1949 * q0.v.x) + (t1948 * q0.v.y)) + (t1947 * q0.v.z))) (1 : α)))
+  let t2015 := ((t1997 + t1969) * (-((1 : α) / (4 : α))))
+  let t2016 := ((t1998 + t1970) * (-((1 : α) / (4 : α))))
+  let t2017 := ((t1999 + t1971) * (-((1 : α) / (4 : α))))
+  let t2019 := (V3.length tmin sqrt ⟨t2017, t2016, t2015⟩)
+  let t2020 := (sin t2019)
+  let t2021 := (sabs t2019)
+  let t2022 := (tmax * t2021)
+  let t2023 := (sabs t2020)
+  let t2024 := (cos t2019)
+  let t2025 := (t2015 * (1 : α))
+  let t2026 := (t2016 * (1 : α))
+  let t2027 := (t2017 * (1 : α))
+  let t2037 := (q1.v.z * t2024)
+  let t2038 := (q1.v.y * t2024)
+  let t2039 := (q1.v.x * t2024)
+  let t2046 := (((q1.r * t2025) + t2037) + ((q1.v.x * t2026) - (q1.v.y * t2027)))
+  let t2047 := (((q1.r * t2026) + t2038) + ((q1.v.z * t2027) - (q1.v.x * t2025)))
+  let t2048 := (((q1.r * t2027) + t2039) + ((q1.v.y * t2025) - (q1.v.z * t2026)))
+  let t2054 := (q1.r * t2024)
+  let t2055 := (t2054 - (((q1.v.x * t2027) + (q1.v.y * t2026)) + (q1.v.z * t2025)))
+  let t2063 := (sqrt ((t2055 * t2055) + (((t2048 * t2048) + (t2047 * t2047)) + (t2046 * t2046))))
+  let t2068 := (t2020 / t2019)
+  let t2069 := (t2015 * t2068)
+  let t2070 := (t2016 * t2068)
+  let t2071 := (t2017 * t2068)
+  let t2087 := (((q1.r * t2069) + t2037) + ((q1.v.x * t2070) - (q1.v.y * t2071)))
+  let t2088 := (((q1.r * t2070) + t2038) + ((q1.v.z * t2071) - (q1.v.x * t2069)))
+  let t2089 := (((q1.r * t2071) + t2039) + ((q1.v.y * t2069) - (q1.v.z * t2070)))
+  let t2095 := (t2054 - (((q1.v.x * t2071) + (q1.v.y * t2070)) + (q1.v.z * t2069)))
+  let t2103 := (sqrt ((t2095 * t2095) + (((t2089 * t2089) + (t2088 * t2088)) + (t2087 * t2087))))
+  let t2104 := (t2095 / t2103)
+  let t2105 := (t2089 / t2103)
+  let t2106 := (t2088 / t2103)
+  let t2107 := (t2087 / t2103)
+  let t2108 := (sin t2010)
+  let t2109 := (sabs t2108)
+  let t2110 := (tmax * t2109)
+  let t2111 := (sabs t2010)
+  let t2112 := (t1997 * (1 : α))
+  let t2113 := (t1998 * (1 : α))
+  let t2114 := (t1999 * (1 : α))
+  let t2118 := ((t2112 + t1969) * (-((1 : α) / (4 : α))))
+  let t2119 := ((t2113 + t1970) * (-((1 : α) / (4 : α))))
+  let t2120 := ((t2114 + t1971) * (-((1 : α) / (4 : α))))
+  let t2121 := (V3.length tmin sqrt ⟨t2120, t2119, t2118⟩)
+  let t2122 := (sin t2121)
+  let t2123 := (sabs t2121)
+  let t2124 := (tmax * t2123)
+  let t2125 := (sabs t2122)
+  let t2126 := (cos t2121)
+  let t2127 := (t2118 * (1 : α))
+  let t2128 := (t2119 * (1 : α))
+  let t2129 := (t2120 * (1 : α))
+  let t2139 := (q1.v.z * t2126)
+  let t2140 := (q1.v.y * t2126)
+  let t2141 := (q1.v.x * t2126)
+  let t2148 := (((q1.r * t2127) + t2139) + ((q1.v.x * t2128) - (q1.v.y * t2129)))
+  let t2149 := (((q1.r * t2128) + t2140) + ((q1.v.z * t2129) - (q1.v.x * t2127)))
+  let t2150 := (((q1.r * t2129) + t2141) + ((q1.v.y * t2127) - (q1.v.z * t2128)))
+  let t2156 := (q1.r * t2126)
+  let t2157 := (t2156 - (((q1.v.x * t2129) + (q1.v.y * t2128)) + (q1.v.z * t2127)))
+  let t2165 := (sqrt ((t2157 * t2157) + (((t2150 * t2150) + (t2149 * t2149)) + (t2148 * t2148))))
+  let t2170 := (t2122 / t2121)
+  let t2171 := (t2118 * t2170)
+  let t2172 := (t2119 * t2170)
+  let t2173 := (t2120 * t2170)
+  let t2189 := (((q1.r * t2171) + t2139) + ((q1.v.x * t2172) - (q1.v.y * t2173)))
+  let t2190 := (((q1.r * t2172) + t2140) + ((q1.v.z * t2173) - (q1.v.x * t2171)))
+  let t2191 := (((q1.r * t2173) + t2141) + ((q1.v.y * t2171) - (q1.v.z * t2172)))
+  let t2197 := (t2156 - (((q1.v.x * t2173) + (q1.v.y * t2172)) + (q1.v.z * t2171)))
+  let t2205 := (sqrt ((t2197 * t2197) + (((t2191 * t2191) + (t2190 * t2190)) + (t2189 * t2189))))
+  let t2206 := (t2197 / t2205)
+  let t2207 := (t2191 / t2205)
+  let t2208 := (t2190 / t2205)
+  let t2209 := (t2189 / t2205)
+  let t2210 := (t2010 / t2108)
+  let t2211 := (t1997 * t2210)
+  let t2212 := (t1998 * t2210)
+  let t2213 := (t1999 * t2210)
+  let t2217 := ((t2211 + t1969) * (-((1 : α) / (4 : α))))
+  let t2218 := ((t2212 + t1970) * (-((1 : α) / (4 : α))))
+  let t2219 := ((t2213 + t1971) * (-((1 : α) / (4 : α))))
+  let t2220 := (V3.length tmin sqrt ⟨t2219, t2218, t2217⟩)
+  let t2221 := (sin t2220)
+  let t2222 := (sabs t2220)
+  let t2223 := (tmax * t2222)
+  let t2224 := (sabs t2221)
+  let t2225 := (cos t2220)
+  let t2226 := (t2217 * (1 : α))
+  let t2227 := (t2218 * (1 : α))
+  let t2228 := (t2219 * (1 : α))
+  let t2238 := (q1.v.z * t2225)
+  let t2239 := (q1.v.y * t2225)
+  let t2240 := (q1.v.x * t2225)
+  let t2247 := (((q1.r * t2226) + t2238) + ((q1.v.x * t2227) - (q1.v.y * t2228)))
+  let t2248 := (((q1.r * t2227) + t2239) + ((q1.v.z * t2228) - (q1.v.x * t2226)))
+  let t2249 := (((q1.r * t2228) + t2240) + ((q1.v.y * t2226) - (q1.v.z * t2227)))
+  let t2255 := (q1.r * t2225)
+  let t2256 := (t2255 - (((q1.v.x * t2228) + (q1.v.y * t2227)) + (q1.v.z * t2226)))
+  let t2264 := (sqrt ((t2256 * t2256) + (((t2249 * t2249) + (t2248 * t2248)) + (t2247 * t2247))))
+  let t2265 := (t2256 / t2264)
+  let t2266 := (t2249 / t2264)
+  let t2267 := (t2248 / t2264)
+  let t2268 := (t2247 / t2264)
+  let t2269 := (t2221 / t2220)
+  let t2270 := (t2217 * t2269)
+  let t2271 := (t2218 * t2269)
+  let t2272 := (t2219 * t2269)
+  let t2288 := (((q1.r * t2270) + t2238) + ((q1.v.x * t2271) - (q1.v.y * t2272)))
+  let t2289 := (((q1.r * t2271) + t2239) + ((q1.v.z * t2272) - (q1.v.x * t2270)))
+  let t2290 := (((q1.r * t2272) + t2240) + ((q1.v.y * t2270) - (q1.v.z * t2271)))
+  let t2296 := (t2255 - (((q1.v.x * t2272) + (q1.v.y * t2271)) + (q1.v.z * t2270)))
+  let t2304 := (sqrt ((t2296 * t2296) + (((t2290 * t2290) + (t2289 * t2289)) + (t2288 * t2288))))
+  let t2305 := (t2296 / t2304)
+  let t2306 := (t2290 / t2304)
+  let t2307 := (t2289 / t2304)
+  let t2308 := (t2288 / t2304)
+  let t2309 := (sin t2008)
+  let t2310 := (sabs t2309)
+  let t2311 := (tmax * t2310)
+  let t2312 := (sabs t2008)
+  let t2313 := (t1969 * (1 : α))
+  let t2314 := (t1970 * (1 : α))
+  let t2315 := (t1971 * (1 : α))
+  let t2319 := ((t1997 + t2313) * (-((1 : α) / (4 : α))))
+  let t2320 := ((t1998 + t2314) * (-((1 : α) / (4 : α))))
+  let t2321 := ((t1999 + t2315) * (-((1 : α) / (4 : α))))
+  let t2322 := (V3.length tmin sqrt ⟨t2321, t2320, t2319⟩)
+  let t2323 := (sin t2322)
+  let t2324 := (sabs t2322)
+  let t2325 := (tmax * t2324)
+  let t2326 := (sabs t2323)
+  let t2327 := (cos t2322)
+  let t2328 := (t2319 * (1 : α))
+  let t2329 := (t2320 * (1 : α))
+  let t2330 := (t2321 * (1 : α))
+  let t2340 := (q1.v.z * t2327)
+  let t2341 := (q1.v.y * t2327)
+  let t2342 := (q1.v.x * t2327)
+  let t2349 := (((q1.r * t2328) + t2340) + ((q1.v.x * t2329) - (q1.v.y * t2330)))
+  let t2350 := (((q1.r * t2329) + t2341) + ((q1.v.z * t2330) - (q1.v.x * t2328)))
+  let t2351 := (((q1.r * t2330) + t2342) + ((q1.v.y * t2328) - (q1.v.z * t2329)))
+  let t2357 := (q1.r * t2327)
+  let t2358 := (t2357 - (((q1.v.x * t2330) + (q1.v.y * t2329)) + (q1.v.z * t2328)))
+  let t2366 := (sqrt ((t2358 * t2358) + (((t2351 * t2351) + (t2350 * t2350)) + (t2349 * t2349))))
+  let t2371 := (t2323 / t2322)
+  let t2372 := (t2319 * t2371)
+  let t2373 := (t2320 * t2371)
+  let t2374 := (t2321 * t2371)
+  let t2390 := (((q1.r * t2372) + t2340) + ((q1.v.x * t2373) - (q1.v.y * t2374)))
+  let t2391 := (((q1.r * t2373) + t2341) + ((q1.v.z * t2374) - (q1.v.x * t2372)))
+  let t2392 := (((q1.r * t2374) + t2342) + ((q1.v.y * t2372) - (q1.v.z * t2373)))
+  let t2398 := (t2357 - (((q1.v.x * t2374) + (q1.v.y * t2373)) + (q1.v.z * t2372)))
+  let t2406 := (sqrt ((t2398 * t2398) + (((t2392 * t2392) + (t2391 * t2391)) + (t2390 * t2390))))
+  let t2407 := (t2398 / t2406)
+  let t2408 := (t2392 / t2406)
+  let t2409 := (t2391 / t2406)
+  let t2410 := (t2390 / t2406)
+  let t2414 := ((t2112 + t2313) * (-((1 : α) / (4 : α))))
+  let t2415 := ((t2113 + t2314) * (-((1 : α) / (4 : α))))
+  let t2416 := ((t2114 + t2315) * (-((1 : α) / (4 : α))))
+  let t2417 := (V3.length tmin sqrt ⟨t2416, t2415, t2414⟩)
+  let t2418 := (sin t2417)
+  let t2419 := (sabs t2417)
+  let t2420 := (tmax * t2419)
+  let t2421 := (sabs t2418)
+  let t2422 := (cos t2417)
+  let t2423 := (t2414 * (1 : α))
+  let t2424 := (t2415 * (1 : α))
+  let t2425 := (t2416 * (1 : α))
+  let t2435 := (q1.v.z * t2422)
+  let t2436 := (q1.v.y * t2422)
+  let t2437 := (q1.v.x * t2422)
+  let t2444 := (((q1.r * t2423) + t2435) + ((q1.v.x * t2424) - (q1.v.y * t2425)))
+  let t2445 := (((q1.r * t2424) + t2436) + ((q1.v.z * t2425) - (q1.v.x * t2423)))
+  let t2446 := (((q1.r * t2425) + t2437) + ((q1.v.y * t2423) - (q1.v.z * t2424)))
+  let t2452 := (q1.r * t2422)
+  let t2453 := (t2452 - (((q1.v.x * t2425) + (q1.v.y * t2424)) + (q1.v.z * t2423)))
+  let t2461 := (sqrt ((t2453 * t2453) + (((t2446 * t2446) + (t2445 * t2445)) + (t2444 * t2444))))
+  let t2466 := (t2418 / t2417)
+  let t2467 := (t2414 * t2466)
+  let t2468 := (t2415 * t2466)
+  let t2469 := (t2416 * t2466)
+  let t2485 := (((q1.r * t2467) + t2435) + ((q1.v.x * t2468) - (q1.v.y * t2469)))
+  let t2486 := (((q1.r * t2468) + t2436) + ((q1.v.z * t2469) - (q1.v.x * t2467)))
+  let t2487 := (((q1.r * t2469) + t2437) + ((q1.v.y * t2467) - (q1.v.z * t2468)))
+  let t2493 := (t2452 - (((q1.v.x * t2469) + (q1.v.y * t2468)) + (q1.v.z * t2467)))
+  let t2501 := (sqrt ((t2493 * t2493) + (((t2487 * t2487) + (t2486 * t2486)) + (t2485 * t2485))))
+  let t2502 := (t2493 / t2501)
+  let t2503 := (t2487 / t2501)
+  let t2504 := (t2486 / t2501)
+  let t2505 := (t2485 / t2501)
+  let t2509 := ((t2211 + t2313) * (-((1 : α) / (4 : α))))
+  let t2510 := ((t2212 + t2314) * (-((1 : α) / (4 : α))))
+  let t2511 := ((t2213 + t2315) * (-((1 : α) / (4 : α))))
+  let t2512 := (V3.length tmin sqrt ⟨t2511, t2510, t2509⟩)
+  let t2513 := (sin t2512)
+  let t2514 := (sabs t2512)
+  let t2515 := (tmax * t2514)
+  let t2516 := (sabs t2513)
+  let t2517 := (cos t2512)
+  let t2518 := (t2509 * (1 : α))
+  let t2519 := (t2510 * (1 : α))
+  let t2520 := (t2511 * (1 : α))
+  let t2530 := (q1.v.z * t2517)
+  let t2531 := (q1.v.y * t2517)
+  let t2532 := (q1.v.x * t2517)
+  let t2539 := (((q1.r * t2518) + t2530) + ((q1.v.x * t2519) - (q1.v.y * t2520)))
+  let t2540 := (((q1.r * t2519) + t2531) + ((q1.v.z * t2520) - (q1.v.x * t2518)))
+  let t2541 := (((q1.r * t2520) + t2532) + ((q1.v.y * t2518) - (q1.v.z * t2519)))
+  let t2547 := (q1.r * t2517)
+  let t2548 := (t2547 - (((q1.v.x * t2520) + (q1.v.y * t2519)) + (q1.v.z * t2518)))
+  let t2556 := (sqrt ((t2548 * t2548) + (((t2541 * t2541) + (t2540 * t2540)) + (t2539 * t2539))))
+  let t2557 := (t2548 / t2556)
+  let t2558 := (t2541 / t2556)
+  let t2559 := (t2540 / t2556)
+  let t2560 := (t2539 / t2556)
+  let t2561 := (t2513 / t2512)
+  let t2562 := (t2509 * t2561)
+  let t2563 := (t2510 * t2561)
+  let t2564 := (t2511 * t2561)
+  let t2580 := (((q1.r * t2562) + t2530) + ((q1.v.x * t2563) - (q1.v.y * t2564)))
+  let t2581 := (((q1.r * t2563) + t2531) + ((q1.v.z * t2564) - (q1.v.x * t2562)))
+  let t2582 := (((q1.r * t2564) + t2532) + ((q1.v.y * t2562) - (q1.v.z * t2563)))
+  let t2588 := (t2547 - (((q1.v.x * t2564) + (q1.v.y * t2563)) + (q1.v.z * t2562)))
+  let t2596 := (sqrt ((t2588 * t2588) + (((t2582 * t2582) + (t2581 * t2581)) + (t2580 * t2580))))
+  let t2597 := (t2588 / t2596)
+  let t2598 := (t2582 / t2596)
+  let t2599 := (t2581 / t2596)
+  let t2600 := (t2580 / t2596)
+  let t2601 := (t2008 / t2309)
+  let t2602 := (t1969 * t2601)
+  let t2603 := (t1970 * t2601)
+  let t2604 := (t1971 * t2601)
+  let t2608 := ((t1997 + t2602) * (-((1 : α) / (4 : α))))
+  let t2609 := ((t1998 + t2603) * (-((1 : α) / (4 : α))))
+  let t2610 := ((t1999 + t2604) * (-((1 : α) / (4 : α))))
+  let t2611 := (V3.length tmin sqrt ⟨t2610, t2609, t2608⟩)
+  let t2612 := (sin t2611)
+  let t2613 := (sabs t2611)
+  let t2614 := (tmax * t2613)
+  let t2615 := (sabs t2612)
+  let t2616 := (cos t2611)
+  let t2617 := (t2608 * (1 : α))
+  let t2618 := (t2609 * (1 : α))
+  let t2619 := (t2610 * (1 : α))
+  let t2629 := (q1.v.z * t2616)
+  let t2630 := (q1.v.y * t2616)
+  let t2631 := (q1.v.x * t2616)
+  let t2638 := (((q1.r * t2617) + t2629) + ((q1.v.x * t2618) - (q1.v.y * t2619)))
+  let t2639 := (((q1.r * t2618) + t2630) + ((q1.v.z * t2619) - (q1.v.x * t2617)))
+  let t2640 := (((q1.r * t2619) + t2631) + ((q1.v.y * t2617) - (q1.v.z * t2618)))
+  let t2646 := (q1.r * t2616)
+  let t2647 := (t2646 - (((q1.v.x * t2619) + (q1.v.y * t2618)) + (q1.v.z * t2617)))
+  let t2655 := (sqrt ((t2647 * t2647) + (((t2640 * t2640) + (t2639 * t2639)) + (t2638 * t2638))))
+  let t2656 := (t2647 / t2655)
+  let t2657 := (t2640 / t2655)
+  let t2658 := (t2639 / t2655)
+  let t2659 := (t2638 / t2655)
+  let t2660 := (t2612 / t2611)
+  let t2661 := (t2608 * t2660)
+  let t2662 := (t2609 * t2660)
+  let t2663 := (t2610 * t2660)
+  let t2679 := (((q1.r * t2661) + t2629) + ((q1.v.x * t2662) - (q1.v.y * t2663)))
+  let t2680 := (((q1.r * t2662) + t2630) + ((q1.v.z * t2663) - (q1.v.x * t2661)))
+  let t2681 := (((q1.r * t2663) + t2631) + ((q1.v.y * t2661) - (q1.v.z * t2662)))
+  let t2687 := (t2646 - (((q1.v.x * t2663) + (q1.v.y * t2662)) + (q1.v.z * t2661)))
+  let t2695 := (sqrt ((t2687 * t2687) + (((t2681 * t2681) + (t2680 * t2680)) + (t2679 * t2679))))
+  let t2696 := (t2687 / t2695)
+  let t2697 := (t2681 / t2695)
+  let t2698 := (t2680 / t2695)
+  let t2699 := (t2679 / t2695)
+  let t2703 := ((t2112 + t2602) * (-((1 : α) / (4 : α))))
+  let t2704 := ((t2113 + t2603) * (-((1 : α) / (4 : α))))
+  let t2705 := ((t2114 + t2604) * (-((1 : α) / (4 : α))))
+  let t2706 := (V3.length tmin sqrt ⟨t2705, t2704, t2703⟩)
+  let t2707 := (sin t2706)
+  let t2708 := (sabs t2706)
+  let t2709 := (tmax * t2708)
+  let t2710 := (sabs t2707)
+  let t2711 := (cos t2706)
+  let t2712 := (t2703 * (1 : α))
+  let t2713 := (t2704 * (1 : α))
+  let t2714 := (t2705 * (1 : α))
+  let t2724 := (q1.v.z * t2711)
+  let t2725 := (q1.v.y * t2711)
+  let t2726 := (q1.v.x * t2711)
+  let t2733 := (((q1.r * t2712) + t2724) + ((q1.v.x * t2713) - (q1.v.y * t2714)))
+  let t2734 := (((q1.r * t2713) + t2725) + ((q1.v.z * t2714) - (q1.v.x * t2712)))
+  let t2735 := (((q1.r * t2714) + t2726) + ((q1.v.y * t2712) - (q1.v.z * t2713)))
+  let t2741 := (q1.r * t2711)
+  let t2742 := (t2741 - (((q1.v.x * t2714) + (q1.v.y * t2713)) + (q1.v.z * t2712)))
+  let t2750 := (sqrt ((t2742 * t2742) + (((t2735 * t2735) + (t2734 * t2734)) + (t2733 * t2733))))
+  let t2751 := (t2742 / t2750)
+  let t2752 := (t2735 / t2750)
+  let t2753 := (t2734 / t2750)
+  let t2754 := (t2733 / t2750)
+  let t2755 := (t2707 / t2706)
+  let t2756 := (t2703 * t2755)
+  let t2757 := (t2704 * t2755)
+  let t2758 := (t2705 * t2755)
+  let t2774 := (((q1.r * t2756) + t2724) + ((q1.v.x * t2757) - (q1.v.y * t2758)))
+  let t2775 := (((q1.r * t2757) + t2725) + ((q1.v.z * t2758) - (q1.v.x * t2756)))
+  let t2776 := (((q1.r * t2758) + t2726) + ((q1.v.y * t2756) - (q1.v.z * t2757)))
+  let t2782 := (t2741 - (((q1.v.x * t2758) + (q1.v.y * t2757)) + (q1.v.z * t2756)))
+  let t2790 := (sqrt ((t2782 * t2782) + (((t2776 * t2776) + (t2775 * t2775)) + (t2774 * t2774))))
+  let t2791 := (t2782 / t2790)
+  let t2792 := (t2776 / t2790)
+  let t2793 := (t2775 / t2790)
+  let t2794 := (t2774 / t2790)
+  let t2798 := ((t2211 + t2602) * (-((1 : α) / (4 : α))))
+  let t2799 := ((t2212 + t2603) * (-((1 : α) / (4 : α))))
+  let t2800 := ((t2213 + t2604) * (-((1 : α) / (4 : α))))
+  let t2801 := (V3.length tmin sqrt ⟨t2800, t2799, t2798⟩)
+  let t2802 := (sin t2801)
+  let t2803 := (sabs t2801)
+  let t2804 := (tmax * t2803)
+  let t2805 := (sabs t2802)
+  let t2806 := (cos t2801)
+  let t2807 := (t2798 * (1 : α))
+  let t2808 := (t2799 * (1 : α))
+  let t2809 := (t2800 * (1 : α))
+  let t2819 := (q1.v.z * t2806)
+  let t2820 := (q1.v.y * t2806)
+  let t2821 := (q1.v.x * t2806)
+  let t2828 := (((q1.r * t2807) + t2819) + ((q1.v.x * t2808) - (q1.v.y * t2809)))
+  let t2829 := (((q1.r * t2808) + t2820) + ((q1.v.z * t2809) - (q1.v.x * t2807)))
+  let t2830 := (((q1.r * t2809) + t2821) + ((q1.v.y * t2807) - (q1.v.z * t2808)))
+  let t2836 := (q1.r * t2806)
+  let t2837 := (t2836 - (((q1.v.x * t2809) + (q1.v.y * t2808)) + (q1.v.z * t2807)))
+  let t2845 := (sqrt ((t2837 * t2837) + (((t2830 * t2830) + (t2829 * t2829)) + (t2828 * t2828))))
+  let t2846 := (t2837 / t2845)
+  let t2847 := (t2830 / t2845)
+  let t2848 := (t2829 / t2845)
+  let t2849 := (t2828 / t2845)
+  let t2850 := (t2802 / t2801)
+  let t2851 := (t2798 * t2850)
+  let t2852 := (t2799 * t2850)
+  let t2853 := (t2800 * t2850)
+  let t2869 := (((q1.r * t2851) + t2819) + ((q1.v.x * t2852) - (q1.v.y * t2853)))
+  let t2870 := (((q1.r * t2852) + t2820) + ((q1.v.z * t2853) - (q1.v.x * t2851)))
+  let t2871 := (((q1.r * t2853) + t2821) + ((q1.v.y * t2851) - (q1.v.z * t2852)))
+  let t2877 := (t2836 - (((q1.v.x * t2853) + (q1.v.y * t2852)) + (q1.v.z * t2851)))
+  let t2885 := (sqrt ((t2877 * t2877) + (((t2871 * t2871) + (t2870 * t2870)) + (t2869 * t2869))))
+  let t2886 := (t2877 / t2885)
+  let t2887 := (t2871 / t2885)
+  let t2888 := (t2870 / t2885)
+  let t2889 := (t2869 / t2885)
+  if t2008 = (0 : α) then
+    if t2010 = (0 : α) then
+      if t2021 < (1 : α) then
+        if t2022 ≤ t2023 then
+          if t2063 = (0 : α) then
             ⟨(1 : α), ⟨(0 : α), (0 : α), (0 : α)⟩⟩
           else
-            ⟨(t2013 / t2021), ⟨(t2006 / t2021), (t2005 / t2021), (t2004 / t2021)⟩⟩
+            ⟨(t2055 / t2063), ⟨(t2048 / t2063), (t2047 / t2063), (t2046 / t2063)⟩⟩
         else
-          if t2061 = (0 : α) then
+          if t2103 = (0 : α) then
             ⟨(1 : α), ⟨(0 : α), (0 : α), (0 : α)⟩⟩
           else
-            ⟨t2062, ⟨t2063, t2064, t2065⟩⟩
+            ⟨t2104, ⟨t2105, t2106, t2107⟩⟩
       else
-        if t2061 = (0 : α) then
+        if t2103 = (0 : α) then
           ⟨(1 : α), ⟨(0 : α), (0 : α), (0 : α)⟩⟩
         else
-          ⟨t2062, ⟨t2063, t2064, t2065⟩⟩
+          ⟨t2104, ⟨t2105, t2106, t2107⟩⟩
     else
-      if t2067 < (1 : α) then
-        if t2068 ≤ t2069 then
-          if t2081 < (1 : α) then
-            if t2082 ≤ t2083 then
-              if t2123 = (0 : α) then
+      if t2109 < (1 : α) then
+        if t2110 ≤ t2111 then
+          if t2123 < (1 : α) then
+            if t2124 ≤ t2125 then
+              if t2165 = (0 : α) then
                 ⟨(1 : α), ⟨(0 : α), (0 : α), (0 : α)⟩⟩
               else
-                ⟨(t2115 / t2123), ⟨(t2108 / t2123), (t2107 / t2123), (t2106 / t2123)⟩⟩
+                ⟨(t2157 / t2165), ⟨(t2150 / t2165), (t2149 / t2165), (t2148 / t2165)⟩⟩
             else
-              if t2163 = (0 : α) then
+              if t2205 = (0 : α) then
                 ⟨(1 : α), ⟨(0 : α), (0 : α), (0 : α)⟩⟩
               else
-                ⟨t2164, ⟨t2165, t2166, t2167⟩⟩
+                ⟨t2206, ⟨t2207, t2208, t2209⟩⟩
           else
-            if t2163 = (0 : α) then
+            if t2205 = (0 : α) then
               ⟨(1 : α), ⟨(0 : α), (0 : α), (0 : α)⟩⟩
             else
-              ⟨t2164, ⟨t2165, t2166, t2167⟩⟩
+              ⟨t2206, ⟨t2207, t2208, t2209⟩⟩
         else
-          if t2180 < (1 : α) then
-            if t2181 ≤ t2182 then
-              if t2222 = (0 : α) then
+          if t2222 < (1 : α) then
+            if t2223 ≤ t2224 then
+              if t2264 = (0 : α) then
                 ⟨(1 : α), ⟨(0 : α), (0 : α), (0 : α)⟩⟩
               else
-                ⟨t2223, ⟨t2224, t2225, t2226⟩⟩
+                ⟨t2265, ⟨t2266, t2267, t2268⟩⟩
             else
-              if t2262 = (0 : α) then
+              if t2304 = (0 : α) then
                 ⟨(1 : α), ⟨(0 : α), (0 : α), (0 : α)⟩⟩
               else
-                ⟨t2263, ⟨t2264, t2265, t2266⟩⟩
+                ⟨t2305, ⟨t2306, t2307, t2308⟩⟩
           else
-            if t2262 = (0 : α) then
+            if t2304 = (0 : α) then
               ⟨(1 : α), ⟨(0 : α), (0 : α), (0 : α)⟩⟩
             else
-              ⟨t2263, ⟨t2264, t2265, t2266⟩⟩
+              ⟨t2305, ⟨t2306, t2307, t2308⟩⟩
       else
-        if t2180 < (1 : α) then
-          if t2181 ≤ t2182 then
-            if t2222 = (0 : α) then
+        if t2222 < (1 : α) then
+          if t2223 ≤ t2224 then
+            if t2264 = (0 : α) then
               ⟨(1 : α), ⟨(0 : α), (0 : α), (0 : α)⟩⟩
             else
-              ⟨t2223, ⟨t2224, t2225, t2226⟩⟩
+              ⟨t2265, ⟨t2266, t2267, t2268⟩⟩
           else
-            if t2262 = (0 : α) then
+            if t2304 = (0 : α) then
               ⟨(1 : α), ⟨(0 : α), (0 : α), (0 : α)⟩⟩
             else
-              ⟨t2263, ⟨t2264, t2265, t2266⟩⟩
+              ⟨t2305, ⟨t2306, t2307, t2308⟩⟩
         else
-          if t2262 = (0 : α) then
+          if t2304 = (0 : α) then
             ⟨(1 : α), ⟨(0 : α), (0 : α), (0 : α)⟩⟩
           else
-            ⟨t2263, ⟨t2264, t2265, t2266⟩⟩
+            ⟨t2305, ⟨t2306, t2307, t2308⟩⟩
   else
-    if t2268 < (1 : α) then
-      if t2269 ≤ t2270 then
-        if t1968 = (0 : α) then
-          if t2282 < (1 : α) then
-            if t2283 ≤ t2284 then
-              if t2324 = (0 : α) then
+    if t2310 < (1 : α) then
+      if t2311 ≤ t2312 then
+        if t2010 = (0 : α) then
+          if t2324 < (1 : α) then
+            if t2325 ≤ t2326 then
+              if t2366 = (0 : α) then
                 ⟨(1 : α), ⟨(0 : α), (0 : α), (0 : α)⟩⟩
               else
-                ⟨(t2316 / t2324), ⟨(t2309 / t2324), (t2308 / t2324), (t2307 / t2324)⟩⟩
+                ⟨(t2358 / t2366), ⟨(t2351 / t2366), (t2350 / t2366), (t2349 / t2366)⟩⟩
             else
-              if t2364 = (0 : α) then
+              if t2406 = (0 : α) then
                 ⟨(1 : α), ⟨(0 : α), (0 : α), (0 : α)⟩⟩
               else
-                ⟨t2365, ⟨t2366, t2367, t2368⟩⟩
+                ⟨t2407, ⟨t2408, t2409, t2410⟩⟩
           else
-            if t2364 = (0 : α) then
+            if t2406 = (0 : α) then
               ⟨(1 : α), ⟨(0 : α), (0 : α), (0 : α)⟩⟩
             else
-              ⟨t2365, ⟨t2366, t2367, t2368⟩⟩
+              ⟨t2407, ⟨t2408, t2409, t2410⟩⟩
         else
-          if t2067 < (1 : α) then
-            if t2068 ≤ t2069 then
-              if t2377 < (1 : α) then
-                if t2378 ≤ t2379 then
-                  if t2419 = (0 : α) then
+          if t2109 < (1 : α) then
+            if t2110 ≤ t2111 then
+              if t2419 < (1 : α) then
+                if t2420 ≤ t2421 then
+                  if t2461 = (0 : α) then
                     ⟨(1 : α), ⟨(0 : α), (0 : α), (0 : α)⟩⟩
                   else
-                    ⟨(t2411 / t2419), ⟨(t2404 / t2419), (t2403 / t2419), (t2402 / t2419)⟩⟩
+                    ⟨(t2453 / t2461), ⟨(t2446 / t2461), (t2445 / t2461), (t2444 / t2461)⟩⟩
                 else
-                  if t2459 = (0 : α) then
+                  if t2501 = (0 : α) then
                     ⟨(1 : α), ⟨(0 : α), (0 : α), (0 : α)⟩⟩
                   else
-                    ⟨t2460, ⟨t2461, t2462, t2463⟩⟩
+                    ⟨t2502, ⟨t2503, t2504, t2505⟩⟩
               else
-                if t2459 = (0 : α) then
+                if t2501 = (0 : α) then
                   ⟨(1 : α), ⟨(0 : α), (0 : α), (0 : α)⟩⟩
                 else
-                  ⟨t2460, ⟨t2461, t2462, t2463⟩⟩
+                  ⟨t2502, ⟨t2503, t2504, t2505⟩⟩
             else
-              if t2472 < (1 : α) then
-                if t2473 ≤ t2474 then
-                  if t2514 = (0 : α) then
+              if t2514 < (1 : α) then
+                if t2515 ≤ t2516 then
+                  if t2556 = (0 : α) then
                     ⟨(1 : α), ⟨(0 : α), (0 : α), (0 : α)⟩⟩
                   else
-                    ⟨t2515, ⟨t2516, t2517, t2518⟩⟩
+                    ⟨t2557, ⟨t2558, t2559, t2560⟩⟩
                 else
-                  if t2554 = (0 : α) then
+                  if t2596 = (0 : α) then
                     ⟨(1 : α), ⟨(0 : α), (0 : α), (0 : α)⟩⟩
                   else
-                    ⟨t2555, ⟨t2556, t2557, t2558⟩⟩
+                    ⟨t2597, ⟨t2598, t2599, t2600⟩⟩
               else
-                if t2554 = (0 : α) then
+                if t2596 = (0 : α) then
                   ⟨(1 : α), ⟨(0 : α), (0 : α), (0 : α)⟩⟩
                 else
-                  ⟨t2555, ⟨t2556, t2557, t2558⟩⟩
+                  ⟨t2597, ⟨t2598, t2599, t2600⟩⟩
           else
-            if t2472 < (1 : α) then
-              if t2473 ≤ t2474 then
-                if t2514 = (0 : α) then
+            if t2514 < (1 : α) then
+              if t2515 ≤ t2516 then
+                if t2556 = (0 : α) then
                   ⟨(1 : α), ⟨(0 : α), (0 : α), (0 : α)⟩⟩
                 else
-                  ⟨t2515, ⟨t2516, t2517, t2518⟩⟩
+                  ⟨t2557, ⟨t2558, t2559, t2560⟩⟩
               else
-                if t2554 = (0 : α) then
+                if t2596 = (0 : α) then
                   ⟨(1 : α), ⟨(0 : α), (0 : α), (0 : α)⟩⟩
                 else
-                  ⟨t2555, ⟨t2556, t2557, t2558⟩⟩
+                  ⟨t2597, ⟨t2598, t2599, t2600⟩⟩
             else
-              if t2554 = (0 : α) then
+              if t2596 = (0 : α) then
                 ⟨(1 : α), ⟨(0 : α), (0 : α), (0 : α)⟩⟩
               else
-                ⟨t2555, ⟨t2556, t2557, t2558⟩⟩
+                ⟨t2597, ⟨t2598, t2599, t2600⟩⟩
       else
-        if t1968 = (0 : α) then
-          if t2571 < (1 : α) then
-            if t2572 ≤ t2573 then
-              if t2613 = (0 : α) then
+        if t2010 = (0 : α) then
+          if t2613 < (1 : α) then
+            if t2614 ≤ t2615 then
+              if t2655 = (0 : α) then
                 ⟨(1 : α), ⟨(0 : α), (0 : α), (0 : α)⟩⟩
               else
-                ⟨t2614, ⟨t2615, t2616, t2617⟩⟩
+                ⟨t2656, ⟨t2657, t2658, t2659⟩⟩
             else
-              if t2653 = (0 : α) then
+              if t2695 = (0 : α) then
                 ⟨(1 : α), ⟨(0 : α), (0 : α), (0 : α)⟩⟩
               else
-                ⟨t2654, ⟨t2655, t2656, t2657⟩⟩
+                ⟨t2696, ⟨t2697, t2698, t2699⟩⟩
           else
-            if t2653 = (0 : α) then
+            if t2695 = (0 : α) then
               ⟨(1 : α), ⟨(0 : α), (0 : α), (0 : α)⟩⟩
             else
-              ⟨t2654, ⟨t2655, t2656, t2657⟩⟩
+              ⟨t2696, ⟨t2697, t2698, t2699⟩⟩
         else
-          if t2067 < (1 : α) then
-            if t2068 ≤ t2069 then
-              if t2666 < (1 : α) then
-                if t2667 ≤ t2668 then
-                  if t2708 = (0 : α) then
+          if t2109 < (1 : α) then
+            if t2110 ≤ t2111 then
+              if t2708 < (1 : α) then
+                if t2709 ≤ t2710 then
+                  if t2750 = (0 : α) then
                     ⟨(1 : α), ⟨(0 : α), (0 : α), (0 : α)⟩⟩
                   else
-                    ⟨t2709, ⟨t2710, t2711, t2712⟩⟩
+                    ⟨t2751, ⟨t2752, t2753, t2754⟩⟩
                 else
-                  if t2748 = (0 : α) then
+                  if t2790 = (0 : α) then
                     ⟨(1 : α), ⟨(0 : α), (0 : α), (0 : α)⟩⟩
                   else
-                    ⟨t2749, ⟨t2750, t2751, t2752⟩⟩
+                    ⟨t2791, ⟨t2792, t2793, t2794⟩⟩
               else
-                if t2748 = (0 : α) then
+                if t2790 = (0 : α) then
                   ⟨(1 : α), ⟨(0 : α), (0 : α), (0 : α)⟩⟩
                 else
-                  ⟨t2749, ⟨t2750, t2751, t2752⟩⟩
+                  ⟨t2791, ⟨t2792, t2793, t2794⟩⟩
             else
-              if t2761 < (1 : α) then
-                if t2762 ≤ t2763 then
-                  if t2803 = (0 : α) then
+              if t2803 < (1 : α) then
+                if t2804 ≤ t2805 then
+                  if t2845 = (0 : α) then
                     ⟨(1 : α), ⟨(0 : α), (0 : α), (0 : α)⟩⟩
                   else
-                    ⟨t2804, ⟨t2805, t2806, t2807⟩⟩
+                    ⟨t2846, ⟨t2847, t2848, t2849⟩⟩
                 else
-                  if t2843 = (0 : α) then
+                  if t2885 = (0 : α) then
                     ⟨(1 : α), ⟨(0 : α), (0 : α), (0 : α)⟩⟩
                   else
-                    ⟨t2844, ⟨t2845, t2846, t2847⟩⟩
+                    ⟨t2886, ⟨t2887, t2888, t2889⟩⟩
               else
-                if t2843 = (0 : α) then
+                if t2885 = (0 : α) then
                   ⟨(1 : α), ⟨(0 : α), (0 : α), (0 : α)⟩⟩
                 else
-                  ⟨t2844, ⟨t2845, t2846, t2847⟩⟩
+                  ⟨t2886, ⟨t2887, t2888, t2889⟩⟩
           else
-            if t2761 < (1 : α) then
-              if t2762 ≤ t2763 then
-                if t2803 = (0 : α) then
+            if t2803 < (1 : α) then
+              if t2804 ≤ t2805 then
+                if t2845 = (0 : α) then
                   ⟨(1 : α), ⟨(0 : α), (0 : α), (0 : α)⟩⟩
                 else
-                  ⟨t2804, ⟨t2805, t2806, t2807⟩⟩
+                  ⟨t2846, ⟨t2847, t2848, t2849⟩⟩
               else
-                if t2843 = (0 : α) then
+                if t2885 = (0 : α) then
                   ⟨(1 : α), ⟨(0 : α), (0 : α), (0 : α)⟩⟩
                 else
-                  ⟨t2844, ⟨t2845, t2846, t2847⟩⟩
+                  ⟨t2886, ⟨t2887, t2888, t2889⟩⟩
             else
-              if t2843 = (0 : α) then
+              if t2885 = (0 : α) then
                 ⟨(1 : α), ⟨(0 : α), (0 : α), (0 : α)⟩⟩
               else
-                ⟨t2844, ⟨t2845, t2846, t2847⟩⟩
+                ⟨t2886, ⟨t2887, t2888, t2889⟩⟩
     else
-      if t1968 = (0 : α) then
-        if t2571 < (1 : α) then
-          if t2572 ≤ t2573 then
-            if t2613 = (0 : α) then
+      if t2010 = (0 : α) then
+        if t2613 < (1 : α) then
+          if t2614 ≤ t2615 then
+            if t2655 = (0 : α) then
               ⟨(1 : α), ⟨(0 : α), (0 : α), (0 : α)⟩⟩
             else
-              ⟨t2614, ⟨t2615, t2616, t2617⟩⟩
+              ⟨t2656, ⟨t2657, t2658, t2659⟩⟩
           else
-            if t2653 = (0 : α) then
+            if t2695 = (0 : α) then
               ⟨(1 : α), ⟨(0 : α), (0 : α), (0 : α)⟩⟩
             else
-              ⟨t2654, ⟨t2655, t2656, t2657⟩⟩
+              ⟨t2696, ⟨t2697, t2698, t2699⟩⟩
         else
-          if t2653 = (0 : α) then
+          if t2695 = (0 : α) then
             ⟨(1 : α), ⟨(0 : α), (0 : α), (0 : α)⟩⟩
           else
-            ⟨t2654, ⟨t2655, t2656, t2657⟩⟩
+            ⟨t2696, ⟨t2697, t2698, t2699⟩⟩
       else
-        if t2067 < (1 : α) then
-          if t2068 ≤ t2069 then
-            if t2666 < (1 : α) then
-              if t2667 ≤ t2668 then
-                if t2708 = (0 : α) then
+        if t2109 < (1 : α) then
+          if t2110 ≤ t2111 then
+            if t2708 < (1 : α) then
+              if t2709 ≤ t2710 then
+                if t2750 = (0 : α) then
                   ⟨(1 : α), ⟨(0 : α), (0 : α), (0 : α)⟩⟩
                 else
-                  ⟨t2709, ⟨t2710, t2711, t2712⟩⟩
+                  ⟨t2751, ⟨t2752, t2753, t2754⟩⟩
               else
-                if t2748 = (0 : α) then
+                if t2790 = (0 : α) then
                   ⟨(1 : α), ⟨(0 : α), (0 : α), (0 : α)⟩⟩
                 else
-                  ⟨t2749, ⟨t2750, t2751, t2752⟩⟩
+                  ⟨t2791, ⟨t2792, t2793, t2794⟩⟩
             else
-              if t2748 = (0 : α) then
+              if t2790 = (0 : α) then
                 ⟨(1 : α), ⟨(0 : α), (0 : α), (0 : α)⟩⟩
               else
-                ⟨t2749, ⟨t2750, t2751, t2752⟩⟩
+                ⟨t2791, ⟨t2792, t2793, t2794⟩⟩
           else
-            if t2761 < (1 : α) then
-              if t2762 ≤ t2763 then
-                if t2803 = (0 : α) then
+            if t2803 < (1 : α) then
+              if t2804 ≤ t2805 then
+                if t2845 = (0 : α) then
                   ⟨(1 : α), ⟨(0 : α), (0 : α), (0 : α)⟩⟩
                 else
-                  ⟨t2804, ⟨t2805, t2806, t2807⟩⟩
+                  ⟨t2846, ⟨t2847, t2848, t2849⟩⟩
               else
-                if t2843 = (0 : α) then
+                if t2885 = (0 : α) then
                   ⟨(1 : α), ⟨(0 : α), (0 : α), (0 : α)⟩⟩
                 else
-                  ⟨t2844, ⟨t2845, t2846, t2847⟩⟩
+                  ⟨t2886, ⟨t2887, t2888, t2889⟩⟩
             else
-              if t2843 = (0 : α) then
+              if t2885 = (0 : α) then
                 ⟨(1 : α), ⟨(0 : α), (0 : α), (0 : α)⟩⟩
               else
-                ⟨t2844, ⟨t2845, t2846, t2847⟩⟩
+                ⟨t2886, ⟨t2887, t2888, t2889⟩⟩
         else
-          if t2761 < (1 : α) then
-            if t2762 ≤ t2763 then
-              if t2803 = (0 : α) then
+          if t2803 < (1 : α) then
+            if t2804 ≤ t2805 then
+              if t2845 = (0 : α) then
                 ⟨(1 : α), ⟨(0 : α), (0 : α), (0 : α)⟩⟩
               else
-                ⟨t2804, ⟨t2805, t2806, t2807⟩⟩
+                ⟨t2846, ⟨t2847, t2848, t2849⟩⟩
             else
-              if t2843 = (0 : α) then
+              if t2885 = (0 : α) then
                 ⟨(1 : α), ⟨(0 : α), (0 : α), (0 : α)⟩⟩
               else
-                ⟨t2844, ⟨t2845, t2846, t2847⟩⟩
+                ⟨t2886, ⟨t2887, t2888, t2889⟩⟩
           else
-            if t2843 = (0 : α) then
+            if t2885 = (0 : α) then
               ⟨(1 : α), ⟨(0 : α), (0 : α), (0 : α)⟩⟩
             else
-              ⟨t2844, ⟨t2845, t2846, t2847⟩⟩
+              ⟨t2886, ⟨t2887, t2888, t2889⟩⟩
 
 end ImathVerif.Gen
